@@ -12,2340 +12,1132 @@ Definition show_fres (r : fres) : string :=
   end.
 Definition check (rs : list rune) : string := digest (show_fres (format_res rs)).
 Definition full (rs : list rune) : string := show_fres (format_res rs).
-Eval vm_compute in ("<<<M3694>>>" ++ check (runes_of_ascii "packet u {
-    @tag(007)
-    @calculatedFrom("""")
-    match i64_ as roots {
-        [""`tick`"", ""1"", 0, 3] : rootA,
-        //x
-        // c
-        00 : pack,
-        [0123456789, 0123456789, ""1"", 255] : msg_type,
-        10 : chars,
-        ""it's"" : o,
-        /// triple
-    },
-    BodyLength {
-        char[255] metadata `
-                `,
-    },
-    options1 {
-        match asx as packetx {
-            ""abc"" : u128,
-            [3, 4294967296, """", """ ++ [28040; 24687]%N ++ runes_of_ascii """, 4294967296] : leftPad,
-            0 : Header,
-            """ ++ [233]%N ++ runes_of_ascii "t" ++ [233]%N ++ runes_of_ascii """ : T,
+Eval vm_compute in ("<<<M1985>>>" ++ check (runes_of_ascii "options {
+    BodyLength = string;
+    trueish = ""it's""
+    i8i8 = ""// no comment""
+    // trailing space 
+    roots = """ ++ [28040; 24687]%N ++ runes_of_ascii """;// a // b
+    falsey = '\x00';
+}
+
+packet metadata {
+    packetx {
+        repeat rootA x_y_z `tab	here`,
+        repeat pack,
+        Logon {
+            u16 msg_type,
+            u8 BodyLength `
+            `,
+            zchar[3] int,
         },
-        repeat char[] Z9_ `{ , }`,
-    },
-    @calculatedFrom(""packet"")
-    @calculatedFrom(""x y"")
-    @tag(255)
-    leftPad {
-        repeat leftPad {
-            float32 falsey @lengthOf(falsey) `a\`,
-            zchar[0] matchKey,
-            zchar[4294967296] a1,
-            match packetx as u {
-                [
-                    00, ""abc"", """ ++ [233]%N ++ runes_of_ascii "t" ++ [233]%N ++ runes_of_ascii """, 00, ""a\\"",
-                    ""{,}""
-                ] : BodyLength,
-                """ ++ [233]%N ++ runes_of_ascii "t" ++ [233]%N ++ runes_of_ascii """ : asx,
-                [""a	b"", 007] : body,
-                [00, 0123456789] : crc,
-            },
-        },
-    },
-    repeat uint8x o `doc`,
-    @tag(65535)
-    u16 Logon @lengthOf(uint8x) `a\`,
-    f32a {
-        repeat char[] matchKey `
-                `,
-        zchar[4294967296] i64_,
-        // packet A { u8 x, }
-        repeat lengthOf {
-            repeat i16 matchKey,
-            u8 falsey,
-            i32 Pad @lengthOf(u8x) ``,
-            charz `crlf
-                        line`,
-        },
-        packetx {
-            int64 trueish,
-            char[42] u @lengthOf(u) `// not a comment`,
-            repeat char[1] i8i8,
-            match x_y_z as u8x {
-                [""\n""] : calculatedFrom,
-            },
-        },
-    },
-    @leftPad('0')
-    As @calculatedFrom(""it's""),
-    @calculatedFrom(""CRC32"")
-    x_y_z @lengthOf(crc),
-    @leftPad('0')
-    @calculatedFrom(""`tick`"")
-    @tag(10)
-    char[42] Z9_ @calculatedFrom(""abc""),
-}
-
-MetaData repeatCount {
-    i8 u `tab	here`,
-    char[255] u,
-    // @lengthOf(
-    u32 msg_type `doc`,
-    i64_ _x,
-}
-
-options {
-    repeatCount = 255;
-    x_y_z = ' ';
-    charz = uint8;
-    Packet = false
-    BodyLength = true;
-}
-
-options {
-    asx = """ ++ [128512]%N ++ runes_of_ascii """
-    uint8x = char[4294967296];
-    u = '0'
-}
-// trailing space ")).
-Eval vm_compute in ("<<<M3967>>>" ++ check (runes_of_ascii "packet u128 {
-    @calculatedFrom(""" ++ [128512]%N ++ runes_of_ascii """)
-    /// triple
-    // c
-    i64 charz `tab	here`,
-    @lengthOf(Header)
-    float32 a1 @calculatedFrom(""" ++ [128512]%N ++ runes_of_ascii """),
-    repeat string a1 `it's`,
-    @tag(42)
-    @tag(7)
-    zchar stringy,
-    float32 calculatedFrom `
-    `,
-}
-
-MetaData x {
-    // " ++ [27880; 37322]%N ++ runes_of_ascii "
-    Header x_y_z `
-    `,
-    int64 options1 `it's`,
-    char[] chars,
-    u16 options1,
-    u16 calculatedFrom `tab	here`,
-    char[0123456789] u,
-}
-
-root packet uint8x {
-    @rightPad('\x00')
-    char[7] asx,
-    int64 Pad @lengthOf(As) `crlf
+        a1 T,
+    },// `tick` ""quote"" 'q'
+    repeat f32 o `crlf
     line`,
-    msg_type @calculatedFrom(""`tick`""),
-    @calculatedFrom(""a\\"")
-    @rightPad(' ')
-    repeatCount `line1
-    line2`,
-    @tag(3)
-    int32 As `two words`,
-    @tag(1)
-    @calculatedFrom(""`tick`"")
-    @lengthOf(f32a)
-    match zchar as u {
-        0123456789 : leftPad,
-        ""\" ++ [233]%N ++ runes_of_ascii """ : _x,
-        7 : MetaDataX,
-        [4294967296] : stringy,
-        7 : uint8x,
+    i32 rootA,
+    int32 matchKey,
+    @leftPad()
+    x_y_z {
+        match body as u8x {
+            [""{,}""] : u8x,
+            3 : u8x,
+            4294967296 : As,
+            [""CRC32""] : A,
+            255 : body,
+            // c
+            42 : x_y_z,
+        },
+    },
+    repeat body float,
+}// trailing space 
+
+packet trueish {
+    stringy @lengthOf(float) `{ , }`,
+    repeat i64_,
+    uint16 string_ @calculatedFrom(""\" ++ [233]%N ++ runes_of_ascii """) `
+    `,// a // b
+    @tag(0123456789)
+    char[4294967296] calculatedFrom @lengthOf(int) `line1
+    line2`,// packet A { u8 x, }
+    match rootA as asx {
+        ""\" ++ [233]%N ++ runes_of_ascii """ : f32a,
+        ""\n"" : rootA,
+        [""a\\"", 0123456789] : crc,
+        1 : msg_type,
+        ""a	b"" : stringy,
+    },
+    repeat len {
+        string_ {
+            i16 _x,
+            _x {
+                repeat uint8x a1,
+                char[42] zchar `say ""hi""`,
+                zchar[7] uint8x,
+            },
+            repeat i8i8 body,
+        },
+        uint8 T @lengthOf(repeatCount),
+    },
+}
+
+root packet asx {
+    @calculatedFrom(""x y"")
+    repeat pack,
+    repeat string_ {
+        u8 metadata,
+    },
+    @calculatedFrom(""abc"")
+    roots @lengthOf(T) ``,
+    match asx as uint8x {
+        3 : u8x,
+    },// trailing space 
+    u8x @calculatedFrom(""{,}""),
+}
+
+packet o {
+    string Logon,
+    charz metadata,
+    match len as float {
+        255 : uint8x,
+        ""CRC32"" : As,
+        1 : body,
+        7 : options1,
+        [""" ++ [128512]%N ++ runes_of_ascii """, ""it's""] : repeatCount,
     },
     @leftPad()
-    string Foo @lengthOf(MetaDataX) ``,//
-    match calculatedFrom as A {
-        [
-            255, 7, 1, 1, 42,
-            007, 007
-        ] : A,
-        [
-            ""a\\"", ""it's"", ""1"", 00, """ ++ [128512]%N ++ runes_of_ascii """,
-            ""{,}"", 42
-        ] : calculatedFrom,
-        ""it's"" : f32a,
-    },
-    repeat char[] i8i8,
-    leftPad,
+    @calculatedFrom(""x y"")
+    @leftPad(' ')
+    repeat lengthOf,
+    zchar[42] Logon @calculatedFrom(""""),
 }
+//x")).
+Eval vm_compute in ("<<<M1708>>>" ++ check (runes_of_ascii "  options
 
-packet _x {
-    char[] Z9_,
-    int64 options1 @calculatedFrom("""") `u8 x,`,
-    // `tick` ""quote"" 'q'
-    @calculatedFrom(""// no comment"")
-    match tag as roots {
-        [""abc""] : options1,
-        65535 : o,
-        ""// no comment"" : f32a,
-        ""packet"" : uint8x,
-    },
-    leftPad @calculatedFrom(""" ++ [233]%N ++ runes_of_ascii "t" ++ [233]%N ++ runes_of_ascii """),
-    repeat x,
-    zchar[65535] float `line1
-    line2`,
-    i16 uint8x,
-    zchar[10] uint8x,
-    @calculatedFrom(""abc"")
-    repeat x {
-        trueish `tab	here`,
-    },
-    @tag(1)
-    char[3] metadata `say ""hi""`,
-}")).
-Eval vm_compute in ("<<<M3627>>>" ++ check (runes_of_ascii "  // " ++ [27880; 37322]%N ++ runes_of_ascii "
-  packet	int	{ @tag( // a // b
+{
+StringPrefixLenType	=  u16
+    ;
+    ArrayPrefixLenType
+	=
+    u16
 
-  0 )
-@rightPad( '0'
-	) @calculatedFrom(  ""CRC32"" ) zchar[	10	]
-	    //x
+    ;
 
-float
-,	char[
-1 // " ++ [27880; 37322]%N ++ runes_of_ascii "
-	] float
+}
+packet 
+SampleBinary
 
-    `
-`
-,int8  i64_
-	@lengthOf(	// packet A { u8 x, }
+    { uint16
 
-	u128 )
-`{ , }`
-    ,
-uint32
-	rootA
-,float32
+MsgType
+`" ++ [28040; 24687; 31867; 22411]%N ++ runes_of_ascii "`,
 
-    _x
+    u16 BodyLenght @lengthOf(Body
+    ) 
+`" ++ [28040; 24687; 20307; 38271; 24230]%N ++ runes_of_ascii "`,
+    match
 
-    ,	u8
-T	``
-    ,
-MetaDataX x `it's`
-	, char[] calculatedFrom , 	 // @lengthOf(
-    uint64 
-  // a // b
-	i8i8
+MsgType as Body {
+	1:
 
-`// not a comment`
-    ,
+Logon
 
-} MetaData	lengthOf	{  
-  // trailing space 
-	// `tick` ""quote"" 'q'
+,
+    2: Logout, 3
+:
+Heartbeat 
+,4
 
-	leftPad
-leftPad, u32
+:
+	RiskControlRequest ,5 :
+RiskControlResponse ,}
 
-    a1
-	`it's` , Pad
-	Packet
-,  //	t
-	  uint8x
-leftPad
+    , @calculatedFrom( ""CRC32""
+)  u32 Ckecksum
+	`" ++ [26657; 39564; 21644]%N ++ runes_of_ascii "`
+,  }
 
-    ,
-falsey
-roots
-`// not a comment`	,
-} packet
-A { 
-calculatedFrom
+packet
+    Logon
+	{
+	@leftPad
+    ( '0'
+)
+	char[	10
+]
+    UserName `" ++ [29992; 25143; 21517]%N ++ runes_of_ascii "` ,
+	string Password
+`" ++ [23494; 30721]%N ++ runes_of_ascii "`
 
-@calculatedFrom(""CRC32""
-	) ``
-	,
-	repeat matchKey	{
+    , uint64  ClientId
+
+`" ++ [23458; 25143; 31471]%N ++ runes_of_ascii "ID` ,	u16
+    HeartbeatInterval `" ++ [24515; 36339; 38388; 38548]%N ++ runes_of_ascii "`
+    , }  packet 
+Logout
+
+{
+	@rightPad ( '0' )
+char[10 ]
+
+UserName
+    `" ++ [29992; 25143; 21517]%N ++ runes_of_ascii "` 
+,uint64  ClientId`" ++ [23458; 25143; 31471]%N ++ runes_of_ascii "ID` 
+,  }
+	packet
+
+Heartbeat
+{}
+
+packet
+    RiskControlRequest 
+{
+
+string
+
+UniqueOrderId
+	`" ++ [21807; 19968; 35746; 21333; 21495]%N ++ runes_of_ascii "` 
+,	char[16
+
+]  ClOrdID`" ++ [23458; 25143; 35746; 21333; 21495]%N ++ runes_of_ascii "` , char[
+3
+]
+	MarketID
+	`" ++ [24066; 22330]%N ++ runes_of_ascii "id` ,char[ 
+12
+
+    ]
+
+SecurityID
+
+`" ++ [35777; 21048; 20195; 30721]%N ++ runes_of_ascii "`
+    , 
+char	Side
+	`" ++ [20080; 21334; 26041; 21521]%N ++ runes_of_ascii "`
+,
+
+    char
+    OrderType `" ++ [35746; 21333; 31867; 22411]%N ++ runes_of_ascii "`, 
+u64
+Price  `" ++ [20215; 26684]%N ++ runes_of_ascii "`  ,u32
+Qty `" ++ [25968; 37327]%N ++ runes_of_ascii "`, repeat
+
     string
 
-chars `two words`
-    ,// trailing space 
-stringy
-@calculatedFrom(	//	t
-    	""1"" ), 
-
-    // @lengthOf(
-    // " ++ [128512]%N ++ runes_of_ascii " emoji
-}  // c
-	, // packet A { u8 x, }
-
-	match
-trueish as	float
-    /// triple
-// " ++ [27880; 37322]%N ++ runes_of_ascii "
-
-{
-3 :
-	int 	 /// triple
-    [
-        // trailing space 
-	""" ++ [233]%N ++ runes_of_ascii "t" ++ [233]%N ++ runes_of_ascii """ ,
-
-""\n""	]
-    :  Logon  // @lengthOf(
-  ,
-    7 :
-
-    metadata
-,
-    007 : 
-    //
-u, }  , 
-@lengthOf(
-
-body
-) char[]
-    Logon  //
-  `tab	here`
-,	// trailing space 
-
-	@calculatedFrom(
-
-""\" ++ [233]%N ++ runes_of_ascii """
-)
-charz 	 // c
-	  @lengthOf(
-	i64_ 
-)
-	,  repeat i64 f32a ,repeat	u32 Foo`
-`
-	,  @calculatedFrom( ""1""
-
-) 
-repeat
-	int  {repeat  trueish
-
-    {  // trailing space 
-	repeat 
-f64 Foo	,
-	},
-}, // c
-	  char[]
-matchKey @lengthOf( x_y_z 
-) ,
-
-    @rightPad( )  repeat
-	int64
-As  //	t
-  	,}
-
-")).
-Eval vm_compute in ("<<<M1402>>>" ++ check (runes_of_ascii "options {
-	StringPrefixLenType = u16;
-	ArrayPrefixLenType = u16;
-}
-
-packet SampleBinary {
-    uint16 MsgType `" ++ [28040; 24687; 31867; 22411]%N ++ runes_of_ascii "`,
-    u16 BodyLenght @lengthOf(Body) `" ++ [28040; 24687; 20307; 38271; 24230]%N ++ runes_of_ascii "`,
-    match MsgType as Body {
-        1 : Logon,
-        2 : Logout,
-        3 : Heartbeat,
-        4 : RiskControlRequest,
-        5 : RiskControlResponse,
-    },
-        @calculatedFrom(""CRC32"")
-    u32 Ckecksum `" ++ [26657; 39564; 21644]%N ++ runes_of_ascii "`,
-}
-
-packet Logon {
-     @leftPad('0')
-    char[10] UserName `" ++ [29992; 25143; 21517]%N ++ runes_of_ascii "`,
-    string Password `" ++ [23494; 30721]%N ++ runes_of_ascii "`,
-    uint64 ClientId `" ++ [23458; 25143; 31471]%N ++ runes_of_ascii "ID`,
-    u16 HeartbeatInterval `" ++ [24515; 36339; 38388; 38548]%N ++ runes_of_ascii "`,
-}
-
-packet Logout {
-      @rightPad('0')
-    char[10] UserName `" ++ [29992; 25143; 21517]%N ++ runes_of_ascii "`,
-    uint64 ClientId `" ++ [23458; 25143; 31471]%N ++ runes_of_ascii "ID`,
-}
-
-packet Heartbeat {
-}
-
-packet RiskControlRequest {
-    string UniqueOrderId `" ++ [21807; 19968; 35746; 21333; 21495]%N ++ runes_of_ascii "`,
-    char[16] ClOrdID `" ++ [23458; 25143; 35746; 21333; 21495]%N ++ runes_of_ascii "`,
-    char[3] MarketID `" ++ [24066; 22330]%N ++ runes_of_ascii "id`,
-    char[12] SecurityID `" ++ [35777; 21048; 20195; 30721]%N ++ runes_of_ascii "`,
-    char Side `" ++ [20080; 21334; 26041; 21521]%N ++ runes_of_ascii "`,
-    char OrderType `" ++ [35746; 21333; 31867; 22411]%N ++ runes_of_ascii "`,
-    u64 Price `" ++ [20215; 26684]%N ++ runes_of_ascii "`,
-    u32 Qty `" ++ [25968; 37327]%N ++ runes_of_ascii "`,
-    repeat string ExtraInfo `" ++ [38468; 21152; 20449; 24687]%N ++ runes_of_ascii "`,
-    repeat SubOrder {
-    		char[16] ClOrdID `" ++ [23376; 35746; 21333; 21495]%N ++ runes_of_ascii "`,
-    		u64 Price `" ++ [23376; 35746; 21333; 20215; 26684]%N ++ runes_of_ascii "`,
-    		u32 Qty `" ++ [23376; 35746; 21333; 25968; 37327]%N ++ runes_of_ascii "`,
-    	},
-}
-
-packet RiskControlResponse {
-    string UniqueOrderId `" ++ [21807; 19968; 35746; 21333; 21495]%N ++ runes_of_ascii "`,
-    i32 Status `" ++ [29366; 24577]%N ++ runes_of_ascii "`,
-    string Msg `" ++ [32467; 26524; 20449; 24687]%N ++ runes_of_ascii "`,
-    repeat Detail,
-}
-
-packet Detail {
-    string RuleName `" ++ [35268; 21017; 21517; 31216]%N ++ runes_of_ascii "`,
-    u16 Code `" ++ [21407; 22240; 20195; 30721]%N ++ runes_of_ascii "`,
-}")).
-Eval vm_compute in ("<<<M396>>>" ++ check (runes_of_ascii "packet Z9_	{	repeat charz{ match chars
-as T{ // trailing space 
-""// no comment""//
-:  float ,	42 : string_, } ,// " ++ [128512]%N ++ runes_of_ascii " emoji
-} , @calculatedFrom(	""CRC32"" ) trueish
-@lengthOf( As
-    ) `" ++ [28040; 24687; 31867; 22411]%N ++ runes_of_ascii "`
-,@lengthOf( _x
-) falsey @lengthOf(  zchar  ) `two words`
-    ,
-@lengthOf(
-    x )string chars  @lengthOf(int )
-    ,f32
-    options1
-    // @lengthOf(
-    , @lengthOf(
-    // `tick` ""quote"" 'q'
-    Pad )	match len as
-leftPad {
-4294967296 :
-    /// triple
-    rootA
-    42
-: Z9_	, } , }options
-    { T
-    = true }
-    MetaData repeatCount {
-    char[] string_`" ++ [233]%N ++ runes_of_ascii "` ,
-f64
-Z9_ ,
-    f32
-_x ,}/// triple
-packet chars { match trueish as  asx /// triple
-{	0123456789
-:chars,
-} , @tag( 10
-) repeat
-rootA`" ++ [233]%N ++ runes_of_ascii "`
-, zchar[ 255 ] MetaDataX `doc` , u16 Header	`" ++ [233]%N ++ runes_of_ascii "` , @leftPad( ' '	) match  trueish as a1
-    {
-""" ++ [28040; 24687]%N ++ runes_of_ascii """: As  ,1
-: pack ,
-    1 : repeatCount ,
-    [ 7 ]
-    : // packet A { u8 x, }
-u ,} , @lengthOf( tag  ) u128
-{ int32 // " ++ [128512]%N ++ runes_of_ascii " emoji
-tag@lengthOf( u8x ) ,
-} , // trailing space 
-@lengthOf( u )@calculatedFrom( ""a	b"" ) @tag(
-    00 )// c
-i64 calculatedFrom@lengthOf( calculatedFrom ) `" ++ [28040; 24687; 31867; 22411]%N ++ runes_of_ascii "`,	} packet pack
-    // packet A { u8 x, }
-    {@calculatedFrom( ""\n""// `tick` ""quote"" 'q'
-) string i8i8 `line1
-line2`
-,
-}")).
-Eval vm_compute in ("<<<M809>>>" ++ check (runes_of_ascii "packet	Logon
-{ @calculatedFrom(	""CRC32"" )
-    a1 , @lengthOf(
-    T  ) @lengthOf(
-metadata )len{ repeat Header
-{
-    char[ 0123456789 ]float
-    `// not a comment` ,}
-    , } ,
-    // `tick` ""quote"" 'q'
-    @leftPad (
-)	char[ 7
+ExtraInfo 
+`" ++ [38468; 21152; 20449; 24687]%N ++ runes_of_ascii "` , repeat
+SubOrder
+{ char[ 
+16
     ]
-    x	@calculatedFrom( ""it's"")  ,  char[ 7 ] calculatedFrom , // trailing space 
-char[]o @calculatedFrom( ""x y"" ) ,
-@lengthOf( matchKey )match
-    //	t
-    options1 as	Logon {
-    42 :
-roots, }
-    , @tag(3//
-)int64 MetaDataX ,@calculatedFrom( ""CRC32"" ) @calculatedFrom(""x y""
-    ) char[ 10
-] chars@calculatedFrom( ""packet"" ) `// not a comment`
-, match pack as i8i8{	[
-00] : crc , [ 0,// packet A { u8 x, }
-""it's"" , 7 , 255
-    // a // b
-    ]: trueish [ ""a	b"",// `tick` ""quote"" 'q'
-4294967296 , 1,
-// packet A { u8 x, }
-// packet A { u8 x, }
-42
+ClOrdID`" ++ [23376; 35746; 21333; 21495]%N ++ runes_of_ascii "`
 ,
-0 , ""`tick`""] :
-    Z9_
-    /// triple
-    ,10
-:options1, } , } packet repeatCount { int8
-    falsey@calculatedFrom(
-""" ++ [233]%N ++ runes_of_ascii "t" ++ [233]%N ++ runes_of_ascii """
-)
-    , }
-options{// a // b
-trueish
-//x
-/// triple
-= zchar[ 255
-]	}root packet uint8x
-// c
-/// triple
-{}
-packet
-    rootA {	zchar[ 0 ] leftPad @calculatedFrom(""""
-    // trailing space 
-    )
-    `say ""hi""` ,
-}
+	u64
+    Price `" ++ [23376; 35746; 21333; 20215; 26684]%N ++ runes_of_ascii "` ,u32 
+Qty `" ++ [23376; 35746; 21333; 25968; 37327]%N ++ runes_of_ascii "`
+,
+
+}	,	}
+	packet
+	RiskControlResponse  {
+
+    string
+UniqueOrderId`" ++ [21807; 19968; 35746; 21333; 21495]%N ++ runes_of_ascii "`,i32
+    Status
+	`" ++ [29366; 24577]%N ++ runes_of_ascii "`,
+    string
+    Msg
+	`" ++ [32467; 26524; 20449; 24687]%N ++ runes_of_ascii "`
+
+    , 
+repeat 
+Detail,
+} packet Detail	{  string RuleName`" ++ [35268; 21017; 21517; 31216]%N ++ runes_of_ascii "`
+    ,  u16 Code `" ++ [21407; 22240; 20195; 30721]%N ++ runes_of_ascii "`
+,}
 ")).
-Eval vm_compute in ("<<<M1311>>>" ++ check (runes_of_ascii "root packet body{
-    // `tick` ""quote"" 'q'
-    @tag(
-    10
-)repeat // trailing space 
-len { // c
-repeat
-    i32
-BodyLength ,	zchar[ 0123456789
-    ]trueish@lengthOf(tag )/// triple
-, }
-, u64 rootA ,
-@tag( 0123456789 //
-)
-    char[ 1
-] i64_
-`
-` ,@tag(//	t
-0123456789)repeat
-    char[]_x
-    ,
-    @tag(
-7 ) zchar[// packet A { u8 x, }
-0 ] calculatedFrom
-    @lengthOf(repeatCount ) , match i64_
-// a // b
-//
-as Packet { 3 : charz,[
-    ""a\\""] : options1, [
-""`tick`"" ,  0123456789 , 4294967296 ,  ""a	b"", 0123456789  ,""x y"" , """ ++ [128512]%N ++ runes_of_ascii """ ,""x y""] :
-    _x	, ""a\""b""  :
-    pack , ""it's""	:
-crc,} , }
-MetaData i8i8 {
-f32 u ,} packet A{ zchar[42
-    ] Pad ,
-    u128 , @calculatedFrom( ""x y"") repeat // `tick` ""quote"" 'q'
-u16 u ,
-    char[00 ]/// triple
-u128  , //	t
-repeat char[] u8x `doc` , }packet _x
-    { @lengthOf( rootA ) @tag( 3 )uint32	msg_type ,	options1
-    u128 ,char[] Pad
-, @tag(
-007 )  f32a @lengthOf(lengthOf ) `// not a comment` , }
-packet // @lengthOf(
-metadata
-    { @leftPad ( '0' ) @tag(0123456789 ) @rightPad (
-    ) f32a,
-    } 	 ")).
-Eval vm_compute in ("<<<M375>>>" ++ check (runes_of_ascii "
-options{ MetaDataX= ' '
-//	t
-// trailing space 
-; trueish = """ ++ [233]%N ++ runes_of_ascii "t" ++ [233]%N ++ runes_of_ascii """ ;
-    /// triple
-    } packet BodyLength{@lengthOf( repeatCount ) char[65535 ]
-    crc @calculatedFrom(
-    """"
-),zchar[0 ]
-x_y_z @calculatedFrom( ""packet"" )`a\` , } packet Header	{	repeat
-    // " ++ [128512]%N ++ runes_of_ascii " emoji
-    T
-{
-//x
-//x
-u128 chars , }, match Pad as
-    crc{ ""a\""b"" :	x , }
-    ,
-    @lengthOf(	rootA
-) @lengthOf(
-stringy )
-i32
-    // a // b
-    x
-,
-    @calculatedFrom( """ ++ [128512]%N ++ runes_of_ascii """
-) int8	u @lengthOf(
-    Pad
-) `doc` , @tag(
-65535)charz { a1
-_x,
-repeat	float32 Header `say ""hi""` ,char u , } ,
-    //x
-    @leftPad ( )
-@leftPad (
-    '0' ) @rightPad( '\x00'
-    )
-    match falsey as As { // " ++ [128512]%N ++ runes_of_ascii " emoji
-""a\\"": pack } /// triple
-,repeat metadata , match i8i8 as u {
-[ 4294967296 ,
-    42 ] // @lengthOf(
-: uint8x ,}  , repeat uint16
-    chars
-// " ++ [27880; 37322]%N ++ runes_of_ascii "
-// @lengthOf(
-`u8 x,` ,
-u16 repeatCount`crlf
-line` ,
-} packet
-    tag {
-    char[ 7 ]// `tick` ""quote"" 'q'
-trueish  , int8
-    string_ ``
-// @lengthOf(
-// @lengthOf(
-,
-    } 	 ")).
-Eval vm_compute in ("<<<M867>>>" ++ check (runes_of_ascii "packet rootA
-    {@calculatedFrom(	""// no comment"" )repeat roots
-`tab	here` , u8x len ,
-    u8x``	,@lengthOf(o )@tag(0) repeat char[] options1
-    , int32 o `" ++ [233]%N ++ runes_of_ascii "`
-, @tag(00) uint16 int , } packet BodyLength {
-@tag( 4294967296  )
-    repeat
-// trailing space 
-/// triple
-zchar[ 1] Z9_ , uint32 leftPad @calculatedFrom( """ ++ [28040; 24687]%N ++ runes_of_ascii """)// packet A { u8 x, }
-, i8 f32a , repeat u8 lengthOf, Header
-{ leftPad ,	repeat stringy { msg_type @lengthOf(  body ) `crlf
-line` ,repeat
-    packetx `say ""hi""`
-// c
-//
-, o ,} , } , repeat int8 f32a `{ , }` // @lengthOf(
-, Z9_
-// packet A { u8 x, }
-// trailing space 
-, body , match tag as
-    //
-    zchar{10 :
-lengthOf , 10
-    : i64_ ,65535:len , 1 :
-msg_type,	""\n""	: Foo , 10:
-zchar
-    ,
-}
-,repeat lengthOf {// `tick` ""quote"" 'q'
-int64 lengthOf @calculatedFrom(""packet"" ) ,
-    repeat calculatedFrom
-    A , repeat char uint8x
-,
-    As	{	stringy
-    // " ++ [128512]%N ++ runes_of_ascii " emoji
-    `it's` ,	} , } // trailing space 
-,
-    //x
-    }
-")).
-Eval vm_compute in ("<<<M307>>>" ++ check (runes_of_ascii "options {
-    string_	= zchar[ 00
-    ]
-;}
-    packet falsey { @lengthOf( float	) string o // c
-,repeat msg_type , match MetaDataX as _x
-    { 3: Pad ,
-    }, leftPad@lengthOf(i8i8 //
-) , @tag(
-0123456789
-    )
-    i16 Packet `
-`
-,o pack `tab	here` ,zchar[ 10
-] int
-    , int16 Foo
-//	t
-// " ++ [128512]%N ++ runes_of_ascii " emoji
-@calculatedFrom(
-    ""CRC32"" )
-`u8 x,` , match f32a as	u8x
-{[ ""{,}""] : T, [ ""1""
-, 65535 ,3 , 0 ,/// triple
-""`tick`""
-    , 0123456789 ,""" ++ [128512]%N ++ runes_of_ascii """ , ""a\\"" ] :uint8x  , 255 : a1  , ""a	b""	: falsey """ ++ [28040; 24687]%N ++ runes_of_ascii """ : x
-    // " ++ [128512]%N ++ runes_of_ascii " emoji
-    , //	t
-[
-    ""packet""
-// c
-//	t
-,3
-    ]
-:
-int , } ,
-repeat Foo /// triple
-{  zchar[1
-]body ``  , roots
-    rootA ,	char[ 0] rootA `doc`, }	,
-    }// `tick` ""quote"" 'q'
-options{
-    } options { Header = int16
-; roots = false ; repeatCount/// triple
-=
-    uint8; stringy
-=	""x y"" ;leftPad = ""it's"";
-    } MetaData u {	string_// trailing space 
-Header
-, zchar[ 3 ] i64_, }
-")).
-Eval vm_compute in ("<<<M3558>>>" ++ check (runes_of_ascii "// top
-options // c0
-{
-    // c1
-LittleEndian // c2a
-  // c2b
-= // c3a
-  // c3b
-true // c4a
-  // c4b
-; // c5
-} // c6
-packet
-    // c7
-Logon // c8
-{ // c9
-u8 // c10
-x // c11a
-  // c11b
-, // c12
-} // c13a
-  // c13b
-packet Logout
-    // c15
-{
-    // c16
-u16 reason // c18
-, } // c20
-root // c21
-packet Frame // c23a
-  // c23b
-{ // c24a
-  // c24b
-i32 // c25
-Kind // c26a
-  // c26b
-, // c27a
-  // c27b
-i32
-    // c28
-Kind2 // c29a
-  // c29b
-, match Kind // c32
-as // c33
-Body // c34a
-  // c34b
-{ 1 // c36
-: Logon ,
-    // c39
-[ 2 , // c42
-3 // c43
-,
-    // c44
-4 // c45a
-  // c45b
-]
-    // c46
-:
-    // c47
-Logout // c48
-, 100
-    // c50
-: Logon
-    // c52
-, // c53a
-  // c53b
-}
-    // c54
-, // c55a
-  // c55b
-match // c56a
-  // c56b
-Kind2 as
-    // c58
-Trailer // c59a
-  // c59b
-{ // c60a
-  // c60b
-0
-    // c61
-: // c62
-Logout // c63
-, } , // c66
-} ")).
-Eval vm_compute in ("<<<M3624>>>" ++ check (runes_of_ascii "packet o {
-    repeat char[65535] rootA,
+Eval vm_compute in ("<<<M1725>>>" ++ check (runes_of_ascii "options {
+    u = ""a\""b"";
+    Z9_ = ""// no comment"";
+    tag = 7
 }
 
-packet repeatCount {
-    @tag(10)
-    @lengthOf(_x)
-    repeat int64 f32a `" ++ [233]%N ++ runes_of_ascii "`,
-    @leftPad('0')
-    @leftPad(' ')
-    @tag(3)
-    // trailing space 
-    o `doc`,
-    // a // b
-    @calculatedFrom("""")
-    string o,
-    @lengthOf(msg_type)
-    match A as T {
-        [
-            ""packet"", ""a\\"", 1, 10, ""x y"",
-            3
-        ] : leftPad,
-        ""packet"" : calculatedFrom,
-        //	t
-        [255] : o,
-        42 : int,
-    },
-    Z9_ float `a\`,
-    char[] u,
-    @lengthOf(i64_)
-    string A @lengthOf(int) `it's`,
-    @rightPad('0')
-    roots {
-        pack @lengthOf(As) `crlf
-        line`,// c
-        zchar[00] zchar @lengthOf(u8x),
-    },
-    @tag(0)
-    @rightPad()
-    @calculatedFrom(""" ++ [128512]%N ++ runes_of_ascii """)
-    f32a lengthOf `{ , }`,
+root packet As {
 }
-// `tick` ""quote"" 'q'")).
-Eval vm_compute in ("<<<M4090>>>" ++ check (runes_of_ascii "packet Pad {
-    char[007] string_,// @lengthOf(
-    @lengthOf(zchar)
-    string rootA,
-    @lengthOf(T)
-    char trueish @lengthOf(zchar) `line1
-        line2`,
-    repeat f64 calculatedFrom,
-    @calculatedFrom(""it's"")
-    leftPad `it's`,
-    stringy {
-        int8 Packet @lengthOf(metadata) `tab	here`,
-        A,
-        match charz as uint8x {
-            3 : MetaDataX,
-            1 : charz,
-            ""a	b"" : msg_type,
-            //x
-            [0, 10, ""// no comment"", ""\" ++ [233]%N ++ runes_of_ascii """] : A,
-            // @lengthOf(
-            ""\n"" : trueish,
-        },
-    },
-    @calculatedFrom(""a\\"")
-    char[7] u @calculatedFrom(""a\\""),
-    //	t
+
+packet Header {
+    @lengthOf(Foo)
+    rootA @calculatedFrom(""\" ++ [233]%N ++ runes_of_ascii """),
+    @calculatedFrom(""CRC32"")
+    float64 crc,
+    repeat char[007] Logon,//
     @tag(7)
-    o {
-        As `it's`,
-    },
-}
-
-packet u {
-}
-
-packet stringy {
-    @tag(0123456789)
-    string pack @lengthOf(Pad),
-}")).
-Eval vm_compute in ("<<<M3524>>>" ++ check (runes_of_ascii "options {
-    LittleEndian = false;
-    StringPrefixLenType = u16;
-    ArrayPrefixLenType = u32;
-}
-packet Order {
-    uint8 x,
-    repeat string venue,
-}
-packet Heartbeat {
-    i64 count,
-    zchar[1] Qty,
-    repeat InX29 {
-        InSeqno26 {
-            int64 f1,
-            char[5] Acct,
-            Order,
-        },
-        repeat InSide285 {
-            repeat Order,
-            char[10] Px,
-            zchar[9] OrderId,
-        },
-        char[] venue,
-        Order,
-    },
-    @rightPad('\x00') char[4] clOrdID,
-}
-root packet Party {
-    zchar[3] f1,
-    u32 clOrdID,
-    u32 Px @lengthOf(Body),
-    match clOrdID as Body {
-        [180, 64] : Heartbeat,
-        11 : Order,
-    },
-    u32 Side2 @calculatedFrom(""CR\
-C32""),
-}
-")).
-Eval vm_compute in ("<<<M656>>>" ++ check (runes_of_ascii "packet
-//x
-/// triple
-u8x { MetaDataX
-@lengthOf( charz
-    ) `u8 x,` , @tag(
-    0
-)
-zchar[ 7 ]
-    u , i8  len `two words` // c
-,
-}
-MetaData roots {i64 body , // a // b
-u  matchKey
-    , Packet a1 ,  zchar[ 65535  ] Logon/// triple
-`a\` , uint8 A  `line1
-line2`
-,	} root	packet
-body {
-// " ++ [128512]%N ++ runes_of_ascii " emoji
-// c
-repeatCount , u64
-    x_y_z ,
-o
-A `a\` ,
-float32 msg_type
-    ,	} MetaData // trailing space 
-_x
-{ char[ 3 ] As `crlf
-line`,} root packet u8x	{
-    @tag(
-7 ) char[
-    // " ++ [27880; 37322]%N ++ runes_of_ascii "
-    7 //	t
-]
-i8i8
-    @calculatedFrom(""" ++ [233]%N ++ runes_of_ascii "t" ++ [233]%N ++ runes_of_ascii """
-)
-,f64 // " ++ [128512]%N ++ runes_of_ascii " emoji
-u8x  @lengthOf( float) ,	@tag(255 ) Header Packet `// not a comment` , @leftPad
-    ( ' ' ) @rightPad( ' ')
-f32
-trueish @lengthOf( x_y_z  ) ,
-    }
-//
-")).
-Eval vm_compute in ("<<<M21>>>" ++ check (runes_of_ascii "packet	Z9_ {repeat options1 {
-    repeat i16 o
-// a // b
-/// triple
-`two words`
-, match charz
-as o { [ 4294967296 ,
-""// no comment""	]:
-// `tick` ""quote"" 'q'
-// packet A { u8 x, }
-u
-    , } , match float
-    as
-    tag
-{ [
-00] : leftPad ,	[
-""" ++ [233]%N ++ runes_of_ascii "t" ++ [233]%N ++ runes_of_ascii """ ,
-""\n""
-, 0 //
-, ""CRC32"" ,
-    1
-    , """ ++ [28040; 24687]%N ++ runes_of_ascii """ , 255
-    , 1]
-: options1, 255	: x  , 00 : x ,
-    } , repeat
-string asx `u8 x,` , } ,
-// " ++ [27880; 37322]%N ++ runes_of_ascii "
-// a // b
-zchar[ 3	] falsey ,}
-    packet u
-{
-//x
-// trailing space 
-zchar[ 0 ]asx ,
-    @tag(
-    10
-)
-    @rightPad (' ' ) @rightPad
-    //x
-    ( '\x00') Logon
-    @calculatedFrom( """ ++ [128512]%N ++ runes_of_ascii """ ) , repeat char[255 ] calculatedFrom	, uint16 lengthOf,
-    }root /// triple
-packet  pack { }
-")).
-Eval vm_compute in ("<<<M4177>>>" ++ check (runes_of_ascii "
-packet
-
-    matchKey  {
-char
-	u128
-    @calculatedFrom(""CRC32""
-
-//x
-    )
-
-`{ , }`
-	, }
-MetaData
-leftPad 
-        //
-  // c
-		{
-uint8x
-
-lengthOf 
-    // packet A { u8 x, }
-// @lengthOf(
-,
-
-    o
-
-    f32a
-    // a // b
-	/// triple
-,zchar[ 7	]
-    Z9_, 
-}
-packet
-    body	{
-@tag( 
-255) repeatCount
-
-    @lengthOf( BodyLength
-
-),
-
-@tag(
-    7
-	) repeat zchar[ 
-4294967296
-	] i64_
-,match x_y_z as
-
-Header
-{""`tick`""
-    :
-	rootA
-
-,
-}
-,
-    @calculatedFrom(
-
-    ""packet""
-	) rootA
-
-    {
-uint64 
-string_,	char[// " ++ [27880; 37322]%N ++ runes_of_ascii "
-    	65535
-	]
-
-    BodyLength
-@calculatedFrom( 
-""a\""b""
-    ) `tab	here`	,
-
-int64 pack `line1
-line2`,}
-,
-	}
-")).
-Eval vm_compute in ("<<<M1142>>>" ++ check (runes_of_ascii "options{ } options  { calculatedFrom = true int = ""it's""tag  = false
-;
-i64_= 3; chars
-= ' ' } options //	t
-{ o = ' '; repeatCount // a // b
-= 00} root
-// " ++ [128512]%N ++ runes_of_ascii " emoji
-// " ++ [128512]%N ++ runes_of_ascii " emoji
-packet
-uint8x
-{
-// @lengthOf(
-// `tick` ""quote"" 'q'
-@rightPad ( '\x00'
-    )i64
-    pack @calculatedFrom(
-    ""\" ++ [233]%N ++ runes_of_ascii """)
-    , repeat char[ 255] body , @tag(10
-)@lengthOf( x_y_z	)int8 a1 `doc` ,i64_ @calculatedFrom(
-""// no comment"")
-// " ++ [27880; 37322]%N ++ runes_of_ascii "
-// " ++ [128512]%N ++ runes_of_ascii " emoji
-`" ++ [233]%N ++ runes_of_ascii "` ,match asx as i64_ {
-""a\""b"" :  f32a , [ ""a\\""] : Logon  , [ 4294967296 ]:
-    pack ,10 : x_y_z
-// `tick` ""quote"" 'q'
-// trailing space 
-,3
-: charz } , @leftPad ( )  asx chars	`tab	here` , }
-")).
-Eval vm_compute in ("<<<M651>>>" ++ check (runes_of_ascii "packet
-u { repeat
-zchar[ 0123456789 // trailing space 
-] x `tab	here`
-/// triple
-//	t
-, @lengthOf( u8x  ) @tag( //x
-3 )@tag(  255 ) options1
-f32a `tab	here`
-    , string BodyLength `u8 x,` ,
-@calculatedFrom( """ ++ [28040; 24687]%N ++ runes_of_ascii """
-    ) string
-u8x  `" ++ [28040; 24687; 31867; 22411]%N ++ runes_of_ascii "`
-, char[ 3 // `tick` ""quote"" 'q'
-] BodyLength , // " ++ [128512]%N ++ runes_of_ascii " emoji
-match rootA
-as
-msg_type { 007 :
-    MetaDataX
-    // " ++ [27880; 37322]%N ++ runes_of_ascii "
-    [ 1	,255, ""CRC32"" , 4294967296] // trailing space 
-: tag ,  }
-// @lengthOf(
-// " ++ [128512]%N ++ runes_of_ascii " emoji
-, float64 a1 `doc`
-, @calculatedFrom( ""a	b"" ) char[3
-    ] body
-, _x	, }
-root
-    packet len {
-    repeat o rootA
-    ,
-}")).
-Eval vm_compute in ("<<<M690>>>" ++ check (runes_of_ascii "packet Z9_	{a1,
-}root packet crc
-    {
-/// triple
-// trailing space 
-u32 o@calculatedFrom( ""it's""
-)
-,
-    float32
-lengthOf  , zchar[4294967296
-    //	t
-    ] repeatCount @lengthOf( MetaDataX ) `{ , }` ,//
-@rightPad ( '0'
-// packet A { u8 x, }
-// c
-) body {
-string Packet
-`tab	here` ,}
-    ,	repeat i8i8 {match
-BodyLength as Foo{ 7 : f32a , 42
-    : A ""packet"" : uint8x , [ ""a\\"" ]
-    // a // b
-    :  u8x	, ""it's"" : As
-, } , repeat zchar[ 65535 ] crc , char[]
-chars `a\`
-    ,}//	t
-,  char[ 4294967296 ]	repeatCount `two words`,
-    }")).
-Eval vm_compute in ("<<<M36>>>" ++ check (runes_of_ascii "root packet
-leftPad { match roots as packetx{
-42 : chars, 255 : f32a , }
-    , @rightPad
-(	' ' ) // @lengthOf(
-charz
-    @lengthOf( packetx ) , i32 u8x  , uint8x
-, } root packet x_y_z { u64 packetx
-@lengthOf( stringy )
-    ,
-    @leftPad// " ++ [27880; 37322]%N ++ runes_of_ascii "
-( ' '
-    ) // packet A { u8 x, }
-@rightPad ( '\x00'
-    ) // trailing space 
-@calculatedFrom(	""\" ++ [233]%N ++ runes_of_ascii """ ) uint8
-MetaDataX@lengthOf(
-    As
-    ) ,@lengthOf(
-rootA ) // c
-float64 uint8x`say ""hi""` ,@leftPad ( ' ' ) repeat float64 Pad ,
-    // packet A { u8 x, }
-    }
-")).
-Eval vm_compute in ("<<<M84>>>" ++ check (runes_of_ascii "MetaData
-    /// triple
-    Logon
-{zchar[
-    3 ] a1
-    `" ++ [28040; 24687; 31867; 22411]%N ++ runes_of_ascii "`
-    , char[ 007 ]
-MetaDataX `a\` ,
-}  root packet
-    pack { }
-packet
-    // trailing space 
-    i64_
-{  @lengthOf(chars
-)
-    len	{ uint8 rootA`doc` ,
-string_ `crlf
-line` //x
-, //	t
-match charz as
-Foo
-{
-    42 : options1 , [255
-    ]:charz
-    } , }, roots repeatCount
-    `two words` /// triple
-,
-    //	t
-    string Logon @calculatedFrom( ""a\""b"") , @calculatedFrom(// `tick` ""quote"" 'q'
-""a\\""	) Z9_
-    ,
-} //x")).
-Eval vm_compute in ("<<<M188>>>" ++ check (runes_of_ascii "packet asx{
-@lengthOf(	falsey
-    //	t
-    ) repeat uint64 charz , repeat // " ++ [128512]%N ++ runes_of_ascii " emoji
-char[] As `it's`
-, }packet
-u8x { @tag(
-    4294967296
-    )
-@calculatedFrom(
-""`tick`""
-) @calculatedFrom(""abc"" ) repeat // @lengthOf(
-i64 options1 `it's`, match Logon as o {  3 :Z9_ 3:T , 3// c
-:// @lengthOf(
-u128,4294967296: Z9_ , [""""
-,
-10
-    ] : body ,
+    //
     // c
-    """ ++ [233]%N ++ runes_of_ascii "t" ++ [233]%N ++ runes_of_ascii """ : string_
-//
-/// triple
-, } , @tag( 7 )
-uint8x
-    @lengthOf(
-    //
-    Foo ), repeat T _x//
-`" ++ [233]%N ++ runes_of_ascii "`
-, }")).
-Eval vm_compute in ("<<<M337>>>" ++ check (runes_of_ascii "packet
-    // " ++ [128512]%N ++ runes_of_ascii " emoji
-    Header {	@calculatedFrom( """" ) @calculatedFrom(
-""" ++ [128512]%N ++ runes_of_ascii """ )  @calculatedFrom(
-""it's"" ) tag
-// trailing space 
-//
-{int32 repeatCount
-,f32a //
-@lengthOf(
-    BodyLength ) , calculatedFrom{ i64_
-    len, trueish @lengthOf( body ) `
-` , i64 f32a `u8 x,`, //x
-match  Foo as A { 007
-: options1
-//x
-/// triple
-,  255: charz ,""" ++ [233]%N ++ runes_of_ascii "t" ++ [233]%N ++ runes_of_ascii """ :zchar
-, ""`tick`""	:
-    u8x
-    ,  1 : len },}, } ,
-    repeat leftPad { uint32 packetx	`` , } // c
-, }")).
-Eval vm_compute in ("<<<M163>>>" ++ check (runes_of_ascii "
-packet
-    float {
-    char[ 00 ] u8x ,	}
-packet // " ++ [128512]%N ++ runes_of_ascii " emoji
-A // @lengthOf(
-{ string
-i8i8 , A //x
-@calculatedFrom(
-""a	b"" ) `a\`, @tag( 1 )
-    chars	@lengthOf( Pad ) `u8 x,`
-    , /// triple
-match repeatCount as stringy { 42 :
-x
-3: // @lengthOf(
-tag, [ 00 , 0123456789
-] : packetx , [ """ ++ [28040; 24687]%N ++ runes_of_ascii """	, ""packet""
-]: string_ , }	,
-}options // @lengthOf(
-{ i8i8= """ ++ [233]%N ++ runes_of_ascii "t" ++ [233]%N ++ runes_of_ascii """ Foo
-    = false
-    // packet A { u8 x, }
-    ;  Pad =
-' '
-    ;}")).
-Eval vm_compute in ("<<<M4062>>>" ++ check (runes_of_ascii "packet x_y_z {
-    @tag(7)
-    u128 u8x,
-    char[1] x_y_z `{ , }`,
-    @lengthOf(T)
-    @calculatedFrom(""" ++ [28040; 24687]%N ++ runes_of_ascii """)
-    @lengthOf(BodyLength)
-    //x
-    // packet A { u8 x, }
-    match body as u {
-        0123456789 : rootA,
+    @calculatedFrom(""{,}"")
+    @lengthOf(stringy)
+    match A as f32a {
+        // `tick` ""quote"" 'q'
+        [
+            ""a\\"", 1, ""CRC32"", 007, ""a	b"",
+            ""\" ++ [233]%N ++ runes_of_ascii """
+        ] : trueish,
+        4294967296 : u8x,
+        //
     },
-}
-
-root packet Logon {
-}
-
-MetaData lengthOf {
-    repeatCount As,
-    u16 MetaDataX `crlf
-    line`,
-    //	t
-    // " ++ [27880; 37322]%N ++ runes_of_ascii "
-    Packet BodyLength,
-    falsey _x `u8 x,`,
-    zchar[3] Z9_,
+    @tag(255)
+    @lengthOf(u8x)
+    @calculatedFrom(""x y"")
+    pack {
+        uint16 uint8x,
+    },
+    match leftPad as asx {
+        ""{,}"" : T,
+        007 : _x,
+        1 : options1,
+        [42, 007] : calculatedFrom,
+        """ ++ [233]%N ++ runes_of_ascii "t" ++ [233]%N ++ runes_of_ascii """ : lengthOf,
+    },
+    u8x {
+        int64 charz `line1
+                line2`,
+    },
+    repeat Header BodyLength `
+        `,
+    @rightPad('\x00')
+    @lengthOf(tag)
+    match o as uint8x {
+        [255] : _x,
+        1 : matchKey,
+        // " ++ [128512]%N ++ runes_of_ascii " emoji
+        //x
+        65535 : tag,
+        0123456789 : zchar,
+        ""a\\"" : metadata,
+    },
 }")).
-Eval vm_compute in ("<<<M934>>>" ++ check (runes_of_ascii "// trailing space 
-packet asx
-{ // @lengthOf(
-} root packet Logon{ char // " ++ [128512]%N ++ runes_of_ascii " emoji
-stringy
-    @calculatedFrom( //	t
-""abc""
-)`say ""hi""` ,
-//	t
-//x
-f64	tag ,// " ++ [27880; 37322]%N ++ runes_of_ascii "
-char[ 0123456789
-    ]
-    packetx , match x	as pack// c
-{ ""\n"" :BodyLength ,
-    // packet A { u8 x, }
-    007 :
-    body/// triple
-, [ 255 ,
-255
-,255  ] //	t
-: A
-    , 0 : o	,[
-    ""abc"" , 1] :crc , [
-""a	b"" ]
-    :charz , } , }
+Eval vm_compute in ("<<<M1425>>>" ++ check (runes_of_ascii "options { LittleEndian // c2a
+  // c2b
+= // c3
+false ; StringPrefixLenType = u32 ; // c9
+ArrayPrefixLenType = // c11
+u16
+    // c12
+;
+    // c13
+} // c14
+packet // c15a
+  // c15b
+Party {
+    // c17
+@leftPad
+    // c18
+(
+    // c19
+'0' // c20
+)
+    // c21
+char[
+    // c22
+12
+    // c23
+] // c24
+Ref // c25a
+  // c25b
+, // c26
+repeat // c27
+char[ // c28
+6 ] // c30a
+  // c30b
+x
+    // c31
+,
+    // c32
+} packet // c34a
+  // c34b
+Logon // c35
+{
+    // c36
+uint32
+    // c37
+clOrdID // c38a
+  // c38b
+, // c39
+Party , } // c42a
+  // c42b
+root // c43a
+  // c43b
+packet // c44a
+  // c44b
+Ack
+    // c45
+{ // c46
+zchar[ 2 ] // c49
+f1 , u32 // c52
+seqNo , // c54a
+  // c54b
+u32 Side2 // c56a
+  // c56b
+@lengthOf( // c57
+Body // c58a
+  // c58b
+) ,
+    // c60
+match seqNo // c62
+as
+    // c63
+Body // c64
+{
+    // c65
+43 // c66
+:
+    // c67
+Logon , // c69
+93
+    // c70
+: // c71
+Party
+    // c72
+,
+    // c73
+}
+    // c74
+, // c75
+} // c76a
+  // c76b
 ")).
-Eval vm_compute in ("<<<M3288>>>" ++ check (runes_of_ascii "// top
+Eval vm_compute in ("<<<M164>>>" ++ check (runes_of_ascii "packet
+    Logon
+{
+    repeat	char
+MetaDataX `say ""hi""`,
+@lengthOf(
+packetx) char[] repeatCount// `tick` ""quote"" 'q'
+`doc` , @leftPad (
+    '0' )@tag(
+7 ) Header@calculatedFrom(
+    """" // " ++ [128512]%N ++ runes_of_ascii " emoji
+)	,
+@lengthOf(
+    /// triple
+    MetaDataX
+) match // trailing space 
+x
+//
+// trailing space 
+as Header
+// trailing space 
+//	t
+{ ""x y"" : u8x // trailing space 
+,
+""" ++ [128512]%N ++ runes_of_ascii """
+: /// triple
+charz , """ ++ [233]%N ++ runes_of_ascii "t" ++ [233]%N ++ runes_of_ascii """
+:// packet A { u8 x, }
+_x,[ 3 , // " ++ [27880; 37322]%N ++ runes_of_ascii "
+00
+    ] :  uint8x , ""it's"" //	t
+:// `tick` ""quote"" 'q'
+rootA[
+    00
+    ,  65535//x
+] :
+    zchar }
+    ,@calculatedFrom( ""// no comment"" )int32 i64_,
+repeat// " ++ [128512]%N ++ runes_of_ascii " emoji
+body {zchar[
+    10  ]
+BodyLength `line1
+line2` , lengthOf Logon
+, // @lengthOf(
+repeat
+    float64	i8i8 ,char[0123456789]leftPad // `tick` ""quote"" 'q'
+`
+` ,	}
+    ,  repeat char[ 255
+    //
+    ] a1`" ++ [28040; 24687; 31867; 22411]%N ++ runes_of_ascii "`, } 	 ")).
+Eval vm_compute in ("<<<M145>>>" ++ check (runes_of_ascii "
 packet
-    // c0
+// `tick` ""quote"" 'q'
+// `tick` ""quote"" 'q'
+rootA{ @tag( 3  ) zchar[
+00 ] // trailing space 
+x_y_z
+    `" ++ [28040; 24687; 31867; 22411]%N ++ runes_of_ascii "`  , _x ,
+    // a // b
+    float64
+    A
+@lengthOf( //
+u8x ) , u8 rootA`line1
+line2`	, zchar[ 7
+    ] // c
+stringy,
+match Header as f32a { ""\" ++ [233]%N ++ runes_of_ascii """:	o ,[
+    // `tick` ""quote"" 'q'
+    4294967296
+, 7 ,// c
+4294967296
+, ""packet"" , ""a	b"" , ""CRC32"" ,	7 ,
+""a	b""// trailing space 
+]	: // packet A { u8 x, }
+repeatCount, ""a\""b"" :
+    Header  [""a\""b"" ] :
+crc  ,	[  007
+,
+007, ""abc"" ] :
+    metadata, 4294967296 : chars ,
+} // " ++ [128512]%N ++ runes_of_ascii " emoji
+, @tag( 1 ) i8 matchKey	`a\` ,
+// @lengthOf(
+// " ++ [128512]%N ++ runes_of_ascii " emoji
+@lengthOf(
+    body ) tag ,@lengthOf( matchKey
+)
+    @lengthOf(  o	)  @lengthOf( pack
+    ) repeat u {
+calculatedFrom @lengthOf( falsey  ), } , }
+")).
+Eval vm_compute in ("<<<M284>>>" ++ check (runes_of_ascii "packet Pad
+{char[ 007] string_ ,// @lengthOf(
+@lengthOf( zchar
+)string rootA
+, @lengthOf(T ) char trueish @lengthOf(
+    zchar
+) `line1
+line2`, repeat f64 calculatedFrom , @calculatedFrom(""it's"" ) leftPad
+    `it's`
+    , stringy{
+int8 Packet @lengthOf( metadata
+)
+`tab	here`
+    ,
+A ,
+    match charz as uint8x{ 3
+:  MetaDataX ,
+    1
+    :
+    //	t
+    charz ""a	b""
+    :
+    //x
+    msg_type	,
+    //x
+    [
+0 , 10 , ""// no comment"" ,""\" ++ [233]%N ++ runes_of_ascii """
+] : A , // @lengthOf(
+""\n"" :
+trueish , },	},
+    @calculatedFrom( ""a\\"")
+char[ 7 ] u @calculatedFrom( ""a\\""),
+    //	t
+    @tag(	7) o
+{	As `it's`	,} ,} packet u	{
+}packet stringy {
+@tag(0123456789 )string pack @lengthOf( Pad), }")).
+Eval vm_compute in ("<<<M259>>>" ++ check (runes_of_ascii "MetaData Header
+{
+} root	packet chars
+    { char[	00
+]
+MetaDataX `u8 x,` ,repeat Foo stringy // " ++ [128512]%N ++ runes_of_ascii " emoji
+, @lengthOf( u8x ) char[] Foo , match  Header as
+leftPad { [
+""abc"" ,
+    255
+, """ ++ [128512]%N ++ runes_of_ascii """ , """" ]	:charz
+,007
+    // packet A { u8 x, }
+    : uint8x , 0 :asx , """"
+    // " ++ [27880; 37322]%N ++ runes_of_ascii "
+    : MetaDataX , } ,	char[]
+uint8x , @tag(  1 )
+    i8i8{ x Packet `doc`	, zchar[ 4294967296  ] metadata @calculatedFrom(
+    ""a\\"" ) `" ++ [233]%N ++ runes_of_ascii "`, zchar[  10]//
+crc
+    @lengthOf( Foo
+    // @lengthOf(
+    ) `crlf
+line` ,
+} ,}	MetaData
+msg_type {
+    char[] calculatedFrom `line1
+line2`,
+} // `tick` ""quote"" 'q'")).
+Eval vm_compute in ("<<<M1515>>>" ++ check (runes_of_ascii "packet leftPad {
+    BodyLength {
+        // a // b
+        rootA {
+            char[00] leftPad,
+            // trailing space 
+            tag @calculatedFrom(""abc""),
+            char[42] len,
+            string MetaDataX,
+        },
+        match Z9_ as A {
+            ""1"" : x,
+            ""packet"" : lengthOf,
+        },
+        i64 chars @lengthOf(msg_type) `
+                `,
+    },
+    zchar[3] u128 @lengthOf(packetx),
+    @leftPad('\x00')
+    char[] chars @calculatedFrom(""`tick`""),
+}")).
+Eval vm_compute in ("<<<M129>>>" ++ check (runes_of_ascii "root packet options1
+{ @lengthOf(	msg_type ) Logon @lengthOf( packetx )`
+` , As  {
+repeat	T
+`
+`
+    ,float64 Foo	`crlf
+line`
+//x
+// a // b
+,repeat repeatCount x_y_z`a\` ,	int8 msg_type
+,
+    } , // `tick` ""quote"" 'q'
+msg_type @lengthOf( body ) , u64 rootA @calculatedFrom(
+""" ++ [128512]%N ++ runes_of_ascii """
+    ) ,@calculatedFrom(""packet""	) i32
+    Header ,	uint32 BodyLength @lengthOf(
+trueish //x
+)
+, @lengthOf(
+f32a ) f32
+    Z9_ `{ , }`, } // a // b")).
+Eval vm_compute in ("<<<M90>>>" ++ check (runes_of_ascii "options{ calculatedFrom
+= '0'; }
+root
+    // " ++ [128512]%N ++ runes_of_ascii " emoji
+    packet metadata{i64 float@calculatedFrom( ""1"" )	,	@rightPad ( // trailing space 
+) Logon u `crlf
+line` , // trailing space 
+falsey Packet `line1
+line2` , u32	a1  `tab	here`, } // " ++ [128512]%N ++ runes_of_ascii " emoji
+options { lengthOf
+    // packet A { u8 x, }
+    = '\x00'
+msg_type =
+uint8;repeatCount
+    // `tick` ""quote"" 'q'
+    =
+0123456789 ; } //x")).
+Eval vm_compute in ("<<<M1830>>>" ++ check (runes_of_ascii "packet Sub {
+    // c2
+    u8 a,// c5
+    @calculatedFrom(""CRC16"")
+    // c8
+    i16 SubSum,
+}// c12a
+
+// c12b
+root packet Frame {
+    u16 MsgType,// c19
+    u16 BodyLen @lengthOf(Body),// c25a
+    // c25b
+    Sub Body,// c28
+    string note,// c31
+    @calculatedFrom(""CRC16"")
+    // c34
+    i16 Checksum,
+    // c37
+    u8 tail,// c40
+}")).
+Eval vm_compute in ("<<<M1200>>>" ++ check (runes_of_ascii "// top
+packet // c0
 u128 // c1
 { // c2
-@lengthOf(
-    // c3
-body // c4a
-  // c4b
+@lengthOf( // c3
+body // c4
 ) // c5
 match // c6
 x_y_z // c7
-as
-    // c8
+as // c8
 u // c9
-{ // c10a
-  // c10b
-""x y"" : // c12a
-  // c12b
-i8i8 , // c14a
-  // c14b
-} // c15a
-  // c15b
-,
-    // c16
-@tag(
-    // c17
+{ // c10
+""x y"" // c11
+: // c12
+i8i8 // c13
+, // c14
+} // c15
+, // c16
+@tag( // c17
 255 // c18
-)
-    // c19
+) // c19
 char[] // c20
-roots // c21a
-  // c21b
-@lengthOf( int
-    // c23
-)
-    // c24
+roots // c21
+@lengthOf( // c22
+int // c23
+) // c24
 , // c25
 } // c26
 ")).
-Eval vm_compute in ("<<<M4382>>>" ++ check (runes_of_ascii "packet 
-calculatedFrom{ int16
+Eval vm_compute in ("<<<M1618>>>" ++ check (runes_of_ascii "
 
-    asx @calculatedFrom(
-"""" ) ,
-	@calculatedFrom(""1"")	i8i8
-{ i32 stringy @calculatedFrom(
-
-""a	b""
-)	`say ""hi""`  ,i32//x
-
-  uint8x 
-,
-match
-
-    Header
-
-as
-Logon {
-00	: A , } ,
-	match 
-  // `tick` ""quote"" 'q'
-      repeatCount  as  Packet
-
-{
-
-    ""packet"" : 
-	// trailing space 
-    MetaDataX
-""" ++ [28040; 24687]%N ++ runes_of_ascii """
-
-    : u
-    ,
-} ,} ,}
-")).
-Eval vm_compute in ("<<<M1253>>>" ++ check (runes_of_ascii "// @lengthOf(
-options { u128  = uint32
-}  packet	T {// packet A { u8 x, }
-}
-options {} MetaData // " ++ [27880; 37322]%N ++ runes_of_ascii "
-pack// " ++ [128512]%N ++ runes_of_ascii " emoji
-{
-    }packet _x
-{	@tag( 1) char[ 00
-    ] x_y_z
-    @calculatedFrom( ""\" ++ [233]%N ++ runes_of_ascii """ ) ,
-    f32 a1 , @rightPad
-(  '0'	) zchar[ 00
-]  u
-    `u8 x,` ,@lengthOf(msg_type )x  {metadata , } ,
-    // packet A { u8 x, }
-    char[]
-    float , }")).
-Eval vm_compute in ("<<<M3741>>>" ++ check (runes_of_ascii "options {
-    calculatedFrom = '0';
-}
-
-root packet metadata {
-    i64 float @calculatedFrom(""1""),
-    @rightPad()
-    Logon u `crlf
-        line`,// trailing space 
-    falsey Packet `line1
-        line2`,
-    u32 a1 `tab	here`,
-}// " ++ [128512]%N ++ runes_of_ascii " emoji
-
-options {
-    lengthOf = '\x00'
-    msg_type = uint8;
-    repeatCount = 0123456789;
-}//x")).
-Eval vm_compute in ("<<<M4073>>>" ++ check (runes_of_ascii "root packet f32a {
-    @leftPad('0')
-    @tag(00)
-    @rightPad('0')
-    falsey tag,/// triple
-    float32 packetx `tab	here`,
-    Pad,
-    @tag(255)
-    char[] T `" ++ [28040; 24687; 31867; 22411]%N ++ runes_of_ascii "`,
-    repeat char[4294967296] Logon,
-    repeat zchar[007] x `
-        `,
-    uint64 uint8x `two words`,
-    Z9_ @lengthOf(f32a),
-}// packet A { u8 x, }")).
-Eval vm_compute in ("<<<M4157>>>" ++ check (runes_of_ascii "
-packet	leftPad { trueish
-    {
-
-    char[]
-
-    charz@calculatedFrom(  ""\n""  ) 
-  // @lengthOf(
-//x
-
-  ,
-    }  ,  @rightPad
-
-    ( '0')
-    @tag( 
-255 
-)
-    len{ zchar[
-
-    65535]
-
-    f32a
-,
-	}
-,
-    f64
-    i8i8 ``	,}
-
-options {
-	chars =
-00
-Pad  =  false // a // b
-	stringy
-= 
-string
-	} ")).
-Eval vm_compute in ("<<<M1580>>>" ++ check (runes_of_ascii "root packet Foo // " ++ [128512]%N ++ runes_of_ascii " emoji
-{ } options {
-    // a // b
-    tag // `tick` ""quote"" 'q'
-= //	t
-""""
-    ; u8x = zchar[0  ] }
-MetaData
-    int {zchar[ 10]
-lengthOf	`` , i64 u8x`// not a comment` ,MetaDataX pack// `tick` ""quote"" 'q'
-`crlf
-line`
-, Logon Logon charz `crlf
-line`
-    ,
-    // a // b
-    }
-")).
-Eval vm_compute in ("<<<M1621>>>" ++ check (runes_of_ascii "root packet Foo // " ++ [128512]%N ++ runes_of_ascii " emoji
-{ } options {
-    // a // b
-    tag // `tick` ""quote"" 'q'
-= //	t
-""""
-    ; u8x = zchar[0  ] }
-MetaData
-    int {zchar[ 10]
-lengthOf	`` , i64 u8x`// not a comment` ,MetaDataX pack// `tick` ""quote"" 'q'
-`crlf
-line`
-, Logon charz `crlf
-line`
-    ,
-    //'1' a // b
-    }
-")).
-Eval vm_compute in ("<<<M1481>>>" ++ check (runes_of_ascii "root packet Foo // " ++ [128512]%N ++ runes_of_ascii " emoji
-{ } options {
-    // a // b
-    tag // `tick` ""quote"" 'q'
-= //	t
-""""
-    ; u8x = zchar[ ]  0 }
-MetaData
-    int {zchar[ 10]
-lengthOf	`` , i64 u8x`// not a comment` ,MetaDataX pack// `tick` ""quote"" 'q'
-`crlf
-line`
-, Logon charz `crlf
-line`
-    ,
-    // a // b
-    }
-")).
-Eval vm_compute in ("<<<M1506>>>" ++ check (runes_of_ascii "root packet Foo // " ++ [128512]%N ++ runes_of_ascii " emoji
-{ } options {
-    // a // b
-    tag // `tick` ""quote"" 'q'
-= //	t
-""""
-    ; u8x = zchar[0  ] }
-MetaData
-    int zchar[{ 10]
-lengthOf	`` , i64 u8x`// not a comment` ,MetaDataX pack// `tick` ""quote"" 'q'
-`crlf
-line`
-, Logon charz `crlf
-line`
-    ,
-    // a // b
-    }
-")).
-Eval vm_compute in ("<<<M1489>>>" ++ check (runes_of_ascii "root packet Foo // " ++ [128512]%N ++ runes_of_ascii " emoji
-{ } options {
-    // a // b
-    tag // `tick` ""quote"" 'q'
-= //	t
-""""
-    ; u8x = zchar[0  ] 
-MetaData
-    int {zchar[ 10]
-lengthOf	`` , i64 u8x`// not a comment` ,MetaDataX pack// `tick` ""quote"" 'q'
-`crlf
-line`
-, Logon charz `crlf
-line`
-    ,
-    // a // b
-    }
-")).
-Eval vm_compute in ("<<<M192>>>" ++ check (runes_of_ascii "root
-packet	i64_
-    {
-    }options{ chars
-= char[
-65535 ] body = ""abc""; u= ""`tick`"" trueish
-='0' }options
-{repeatCount= '\x00'
-// " ++ [128512]%N ++ runes_of_ascii " emoji
-/// triple
-;
-    f32a =""\n"" int
-    /// triple
-    = false Pad
-= ""1""repeatCount =""// no comment""; }root packet string_
-{i32 As `tab	here` , } // c")).
-Eval vm_compute in ("<<<M887>>>" ++ check (runes_of_ascii "
-MetaData
-// " ++ [128512]%N ++ runes_of_ascii " emoji
-//
-i8i8
-{ int8 charz	`doc` ,}
-    packet Header
-    {  repeat
-    int32 lengthOf `line1
-line2` // trailing space 
-,
-}
-    options {float= char[] ;
-}packet i8i8 //
-{uint8	u128 @lengthOf(
-//	t
-//x
-repeatCount )`crlf
-line` ,} options {
-    Packet =
-char[ 007 ]}
-")).
-Eval vm_compute in ("<<<M3820>>>" ++ check (runes_of_ascii "root packet u {
-    @rightPad('\x00')
-    Logon @calculatedFrom(""{,}"") `" ++ [233]%N ++ runes_of_ascii "`,
-    @tag(3)
-    string repeatCount,
-    match packetx as u8x {
-        65535 : i8i8,
-        007 : roots,
-        ""a	b"" : BodyLength,
-    },
-    @tag(00)
-    uint32 repeatCount @lengthOf(u128),
-}")).
-Eval vm_compute in ("<<<M4491>>>" ++ check (runes_of_ascii "options { 
-}
-	options { } root packet 
-uint8x
-	{ @leftPad  ('\x00'  ) 
-match
-uint8x 
-as pack  {
-    [""\n""
-, 
-""a	b"",
-    10
-	,
-
-    // " ++ [27880; 37322]%N ++ runes_of_ascii "
-	255
-, 
-    // " ++ [27880; 37322]%N ++ runes_of_ascii "
-    	//	t
-	""a	b""
-,	//x
-  """" ]  // " ++ [27880; 37322]%N ++ runes_of_ascii "
-    :
-    repeatCount
-,  // c
-      }
-
-    , 	 // " ++ [128512]%N ++ runes_of_ascii " emoji
-
-}")).
-Eval vm_compute in ("<<<M3653>>>" ++ check (runes_of_ascii "// packet A { u8 x, }
-	  options
-
-    { 
-matchKey
-    = char[]x	=
-char[] 	 // " ++ [27880; 37322]%N ++ runes_of_ascii "
-
-	}
-
-packet
-i64_ {
-repeat  pack `say ""hi""` 
-,i16 calculatedFrom `u8 x,`, }MetaData
-	calculatedFrom	{  // trailing space 
-
-	Logon
-
-Packet ,}// `tick` ""quote"" 'q'
-")).
-Eval vm_compute in ("<<<M1151>>>" ++ check (runes_of_ascii "packet a1{
-@calculatedFrom(""// no comment"")
-repeat
-f32a { body// `tick` ""quote"" 'q'
-`// not a comment`,  } , o @calculatedFrom(""a	b""
-)
-    //	t
-    `line1
-line2`
-, @calculatedFrom(""`tick`""
-) repeat	tag	,
-// @lengthOf(
-// " ++ [128512]%N ++ runes_of_ascii " emoji
-}
-// c
-")).
-Eval vm_compute in ("<<<M181>>>" ++ check (runes_of_ascii "root
-packet BodyLength {
-//x
-//	t
-@rightPad( ' ') f32
-_x @lengthOf( Header )
-`" ++ [28040; 24687; 31867; 22411]%N ++ runes_of_ascii "`
-, @lengthOf( crc )
-    // a // b
-    @tag(
-    007
-) char[]// c
-a1
-    ,  } packet metadata { Foo@calculatedFrom( ""\n""), char _x
-// " ++ [27880; 37322]%N ++ runes_of_ascii "
-//	t
-, }
-")).
-Eval vm_compute in ("<<<M2372>>>" ++ check (runes_of_ascii "MetaData Packet { }packet	asx  { @lengthOf( asx) falsey`crlf
-line`
-,
-    }
-    packet x	{uint32// @lengthOf(
-rootA	,u32 options1 `say ""hi""` , @tag( 7
-    )// packet A { u8 x, }
-msg_type @lengthOf(
-stringy	)	, @rightPad
-
-")).
-Eval vm_compute in ("<<<M2258>>>" ++ check (runes_of_ascii "MetaData Packet { }packet	asx  { @lengthOf( asx i32 falsey`crlf
-line`
-,
-    }
-    packet x	{uint32// @lengthOf(
-rootA	,u32 options1 `say ""hi""` , @tag( 7
-    )// packet A { u8 x, }
-msg_type @lengthOf(
-stringy	)	, }
-
-")).
-Eval vm_compute in ("<<<M2379>>>" ++ check (runes_of_ascii "MetaData Packet { }packet	asx  { @lengthOf( asx) falsey`crlf
-line`
-$,
-    }
-    packet x	{uint32// @lengthOf(
-rootA	,u32 options1 `say ""hi""` , @tag( 7
-    )// packet A { u8 x, }
-msg_type @lengthOf(
-stringy	)	, }
-
-")).
-Eval vm_compute in ("<<<M2312>>>" ++ check (runes_of_ascii "MetaData Packet { }packet	asx  { @lengthOf( asx) falsey`crlf
-line`
-,
-    }
-    packet x	{uint32// @lengthOf(
-rootA	,options1 u32 `say ""hi""` , @tag( 7
-    )// packet A { u8 x, }
-msg_type @lengthOf(
-stringy	)	, }
-
-")).
-Eval vm_compute in ("<<<M2365>>>" ++ check (runes_of_ascii "MetaData Packet { }packet	asx  { @lengthOf( asx) falsey`crlf
-line`
-,
-    }
-    packet x	{uint32// @lengthOf(
-rootA	,u32 options1 `say ""hi""` , @tag( 7
-    )// packet A { u8 x, }
-msg_type @lengthOf(
-stringy	)	 }
-
-")).
-Eval vm_compute in ("<<<M2280>>>" ++ check (runes_of_ascii "MetaData Packet { }packet	asx  { @lengthOf( asx) falsey`crlf
-line`
-,
-    }
-     x	{uint32// @lengthOf(
-rootA	,u32 options1 `say ""hi""` , @tag( 7
-    )// packet A { u8 x, }
-msg_type @lengthOf(
-stringy	)	, }
-
-")).
-Eval vm_compute in ("<<<M169>>>" ++ check (runes_of_ascii "packet u128 {
-string
-T
-, }
-packet
-A { Pad { metadata f32a, match  i8i8
-    as //x
-crc { 7:a1,[ ""1"" ] :Foo	, 7
-    : metadata
-    // c
-    , 65535 : pack
-    ,	} , repeat char[] string_, }/// triple
-,
-}
-")).
-Eval vm_compute in ("<<<M973>>>" ++ check (runes_of_ascii "// a // b
-packet/// triple
-tag
-    { match	As as o
-{
-""`tick`"" :
-    float , },	string // c
-u128 `two words` ,	}
-// " ++ [27880; 37322]%N ++ runes_of_ascii "
-// packet A { u8 x, }
-packet lengthOf	{ int64 u	@calculatedFrom( """ ++ [233]%N ++ runes_of_ascii "t" ++ [233]%N ++ runes_of_ascii """ ) ,	}
-")).
-Eval vm_compute in ("<<<M394>>>" ++ check (runes_of_ascii "MetaData  tag
-    {i8 body ,char[]tag , int16 metadata ,
-    // c
-    f64 body`" ++ [28040; 24687; 31867; 22411]%N ++ runes_of_ascii "`
-// a // b
-/// triple
-,
-    char[ // `tick` ""quote"" 'q'
-42 ] rootA, // a // b
-T metadata `say ""hi""`
-, }")).
-Eval vm_compute in ("<<<M4498>>>" ++ check (runes_of_ascii "// @lengthOf(
-MetaData u {
-    char[] float,
-    u8 leftPad `
-        `,
-    // a // b
-    // a // b
-    metadata string_,
-    char[] Header,
-    zchar[0123456789] a1 `
-        `,
-}")).
-Eval vm_compute in ("<<<M3869>>>" ++ check (runes_of_ascii "root packet calculatedFrom {
-    @rightPad()
-    match pack as repeatCount {
-        007 : pack,
-    },
-}
-
-options {
-    As = 00
-    //	t
-    T = '\x00';
-    pack = 00
-}// c")).
-Eval vm_compute in ("<<<M4484>>>" ++ check (runes_of_ascii "
-options { 
-As
-
-=
-string u
-
-    = """ ++ [233]%N ++ runes_of_ascii "t" ++ [233]%N ++ runes_of_ascii """  } 
-packet string_
-
-    {@tag( 3
-
-)
-
-int32
-
-As ,  } root packet
-
-stringy
-	{	//x
-    string
-	int ,
-
-    }	options
-	{ 
-}
-")).
-Eval vm_compute in ("<<<M83>>>" ++ check (runes_of_ascii "packet // trailing space 
-msg_type { repeat string
-// `tick` ""quote"" 'q'
-// @lengthOf(
-BodyLength  `two words`
-// packet A { u8 x, }
-// packet A { u8 x, }
-, }
-")).
-Eval vm_compute in ("<<<M944>>>" ++ check (runes_of_ascii "packet crc {
-    } MetaData/// triple
-Packet { Logon
-    Pad `line1
-line2` ,u8 pack ,// a // b
-} options
-    // c
-    { falsey
-=  ""it's"" len = """ ++ [28040; 24687]%N ++ runes_of_ascii """ ; }
-")).
-Eval vm_compute in ("<<<M4034>>>" ++ check (runes_of_ascii "
-
-  packet A {
-match
-k
-
-    as	n
-
-    { [
-
-""a""
-, ""bb"" ,
-
-    ""c c""	,""d"" ,
-""e""
-,""f"",
-""g""
-, 
-""h""  ,
-	""i""
-	,""j""
-] 
-: 
-B
-,
-
-    2 : C } ,} ")).
-Eval vm_compute in ("<<<M2329>>>" ++ check (runes_of_ascii "MetaData Packet { }packet	asx  { @lengthOf( asx) falsey`crlf
-line`
-,
-    }
-    packet x	{uint32// @lengthOf(
-rootA	,u32 options1 `say ""hi""`")).
-Eval vm_compute in ("<<<M1726>>>" ++ check (runes_of_ascii "root packet /// triple
-r@leftpadootA {	i32
-MetaDataX@calculatedFrom( ""CRC32"" ) `line1
-line2` , } MetaData BodyLength {
-u8
-rootA, } // c")).
-Eval vm_compute in ("<<<M3445>>>" ++ check (runes_of_ascii "options {
-    LittleEndian = true;
-}
-packet B {
-    u8 a,
-    string s,
-}
-root packet P {
-    u16 L @lengthOf(B),
-    B,
-    u8 t,
-}
-")).
-Eval vm_compute in ("<<<M1708>>>" ++ check (runes_of_ascii "root packet /// triple
-rootA {	i32
-MetaDataX@calculatedFrom( ""CRC32"" ) `line1
-line2` , } MetaData BodyLength {
-u8
-rootA, , } // c")).
-Eval vm_compute in ("<<<M1679>>>" ++ check (runes_of_ascii "root packet /// triple
-rootA {	i32
-MetaDataX@calculatedFrom( ""CRC32"" ) `line1
-line2` , MetaData } BodyLength {
-u8
-rootA, } // c")).
-Eval vm_compute in ("<<<M4064>>>" ++ check (runes_of_ascii "packet
-calculatedFrom
-
-{@tag( 
-4294967296
-)
-    u msg_type
-	, char[
-3]
-
-crc @lengthOf(
-	len
+  packet
+calculatedFrom{
+@lengthOf( 
+zchar
 
     )
-    `u8 x,` 
-,	// c
-	}")).
-Eval vm_compute in ("<<<M4437>>>" ++ check (runes_of_ascii "packet
-	calculatedFrom	{@tag(
-    4294967296
+char[]// `tick` ""quote"" 'q'
+	chars  `line1
+line2`
+,
 
-) u 
+string 
+Logon
+
+@calculatedFrom( ""it's"") 
+,
+matchKey
+	`say ""hi""`
+,@lengthOf(
+T
     // c
-    msg_type, char[
+    ) x_y_z
+@calculatedFrom(
 
-3 
-]
-    crc @lengthOf( len )`u8 x,`
-	, }
-")).
-Eval vm_compute in ("<<<M1715>>>" ++ check (runes_of_ascii "root packet /// triple
-rootA {	i32
-MetaDataX@calculatedFrom( ""CRC32"" ) `line1
-line2` , } MetaData BodyLength {
-u8
-rootA,")).
-Eval vm_compute in ("<<<M1788>>>" ++ check (runes_of_ascii "packet
-    ""x y"" // a // b
-{ i8i8 @calculatedFrom( ""a	b"") `u8 x,` ,
-} options{ float// " ++ [128512]%N ++ runes_of_ascii " emoji
-= f64 i64_
-=//	t
-00 }
-")).
-Eval vm_compute in ("<<<M1892>>>" ++ check (runes_of_ascii "packet
-    Pad // a // b
-{ i8i8 @calculatedFrom( ""a	b"") `u8 x,` ,
-} options{ float// " ++ [128512]%N ++ runes_of_ascii " emoji
-= f64 i6'4_
-=//	t
-00 }
-")).
-Eval vm_compute in ("<<<M1858>>>" ++ check (runes_of_ascii "packet
-    Pad // a // b
-{ i8i8 @calculatedFrom( ""a	b"") `u8 x,` ,
-} options{ float// " ++ [128512]%N ++ runes_of_ascii " emoji
-= f64 char
-=//	t
-00 }
-")).
-Eval vm_compute in ("<<<M1378>>>" ++ check (runes_of_ascii "packet f32a
-    {int16 int
+""it's"") 
+`// not a comment`
+
     ,
-    } MetaData f32a { char i8i8 , /// triple
-string Pad, zchar
-f32a ,
-    x	T,
+	}")).
+Eval vm_compute in ("<<<M1726>>>" ++ check (runes_of_ascii "
+//
+  	packet
+u
+    { 
+}
+packet	u8x
+{
+    }	options {	Logon=
+	string
+
+;
+calculatedFrom =
+	'\x00'
+;
+    BodyLength	// " ++ [27880; 37322]%N ++ runes_of_ascii "
+    =
+
+1
+
+; //	t
+
+_x // " ++ [27880; 37322]%N ++ runes_of_ascii "
+
+=
+    ""CRC32""  ;  }
+	root 
+
+/// triple
+  // " ++ [27880; 37322]%N ++ runes_of_ascii "
+  packet  Z9_  {
+	}	MetaData 
+chars
+    { }
+
+")).
+Eval vm_compute in ("<<<M1468>>>" ++ check (runes_of_ascii "packet Sub {
+    u8 a,
+    u32 SubSum @calculatedFrom(""CRC16""),
+}
+root packet Frame {
+    u16 MsgType,
+    u16 BodyLen @lengthOf(Body),
+    Sub Body,
+    string note,
+    u32 Checksum @calculatedFrom(""CRC16""),
+    u8 tail,
 }
 ")).
-Eval vm_compute in ("<<<M446>>>" ++ check (runes_of_ascii "MetaData
-body { int64 pack ,	i16 len,	o x ,	uint8
-u128 , string calculatedFrom `two words`
-, u64 len
-    , } //")).
-Eval vm_compute in ("<<<M3028>>>" ++ check (runes_of_ascii "packet A {
-    u16 len @lengthOf(body) `a
+Eval vm_compute in ("<<<M537>>>" ++ check (runes_of_ascii "options
+{
+matchKey = 42/// triple
+x='0' ;
+// packet A { u8 x, }
+//
+charz
+=
+// packet A { u8 x, }
+// trailing space 
+true  ; } MetaData BodyLength
+{
+uint8
+pack,zchar[ 1]float ,  float32 x_y_z `` ,u32
+_x _x,i16 body  , }
+")).
+Eval vm_compute in ("<<<M483>>>" ++ check (runes_of_ascii "options
+{
+matchKey = 42/// triple
+x='0' ;
+// packet A { u8 x, }
+//
+charz
+=
+// packet A { u8 x, }
+// trailing space 
+true  ; } MetaData BodyLength
+{
+uint8
+pack zchar[, 1]float ,  float32 x_y_z `` ,u32
+_x,i16 body  , }
+")).
+Eval vm_compute in ("<<<M458>>>" ++ check (runes_of_ascii "options
+{
+matchKey = 42/// triple
+x='0' ;
+// packet A { u8 x, }
+//
+charz
+=
+// packet A { u8 x, }
+// trailing space 
+true  ; } BodyLength MetaData
+{
+uint8
+pack,zchar[ 1]float ,  float32 x_y_z `` ,u32
+_x,i16 body  , }
+")).
+Eval vm_compute in ("<<<M514>>>" ++ check (runes_of_ascii "options
+{
+matchKey = 42/// triple
+x='0' ;
+// packet A { u8 x, }
+//
+charz
+=
+// packet A { u8 x, }
+// trailing space 
+true  ; } MetaData BodyLength
+{
+uint8
+pack,zchar[ 1]float ,  repeat x_y_z `` ,u32
+_x,i16 body  , }
+")).
+Eval vm_compute in ("<<<M251>>>" ++ check (runes_of_ascii "MetaData rootA	{
+roots Header ,} root packet chars{ @tag(  1  )
+repeat char[] stringy `doc` ,}
+    root packet int{ uint8x MetaDataX	, }MetaData Logon {
+x_y_z
+i64_// @lengthOf(
+,Z9_
+_x , body crc `say ""hi""`,
+}
+")).
+Eval vm_compute in ("<<<M530>>>" ++ check (runes_of_ascii "options
+{
+matchKey = 42/// triple
+x='0' ;
+// packet A { u8 x, }
+//
+charz
+=
+// packet A { u8 x, }
+// trailing space 
+true  ; } MetaData BodyLength
+{
+uint8
+pack,zchar[ 1]float ,  float32 x_y_z ``")).
+Eval vm_compute in ("<<<M702>>>" ++ check (runes_of_ascii "// c
+packet i64_ {	char[] calculatedFrom , } packet
+trueish  {@calculatedFrom(
+""a\\"" ) o { i32 falsey@lengthOf( uint8x )char[]
+} , } // `tick` ""quote"" 'q'
+options {// c
+Z9_ = ' '//
+}
+")).
+Eval vm_compute in ("<<<M689>>>" ++ check (runes_of_ascii "// c
+packet i64_ {	char[] calculatedFrom , } packet
+trueish  {@calculatedFrom(
+""a\\"" ) { o i32 falsey@lengthOf( uint8x ),
+} , } // `tick` ""quote"" 'q'
+options {// c
+Z9_ = ' '//
+}
+")).
+Eval vm_compute in ("<<<M680>>>" ++ check (runes_of_ascii "// c
+packet i64_ {	 calculatedFrom , } packet
+trueish  {@calculatedFrom(
+""a\\"" ) o { i32 falsey@lengthOf( uint8x ),
+} , } // `tick` ""quote"" 'q'
+options {// c
+Z9_ = ' '//
+}
+")).
+Eval vm_compute in ("<<<M490>>>" ++ check (runes_of_ascii "options
+{
+matchKey = 42/// triple
+x='0' ;
+// packet A { u8 x, }
+//
+charz
+=
+// packet A { u8 x, }
+// trailing space 
+true  ; } MetaData BodyLength
+{
+uint8
+pack,")).
+Eval vm_compute in ("<<<M186>>>" ++ check (runes_of_ascii "//	t
+MetaData asx { char[]asx , x
+_x , } root packet lengthOf{ @tag(
+10
+)@rightPad ( '0' )
+    @rightPad('0' ) // " ++ [128512]%N ++ runes_of_ascii " emoji
+u32
+BodyLength, //	t
+}
+")).
+Eval vm_compute in ("<<<M1855>>>" ++ check (runes_of_ascii "
 
-b`,
-    u32 crc @calculatedFrom(""CRC32"") `a
+  //x
+  packet
 
-b`,
-    string body,
+    uint8x{u8 // packet A { u8 x, }
+	roots
+`a\`  , match
+	len
+
+    as
+charz
+{ 
+[
+
+    3,
+
+""""
+] 
+:
+Z9_
+,	}, }
+")).
+Eval vm_compute in ("<<<M1653>>>" ++ check (runes_of_ascii "
+MetaData Logon	{
+zchar[
+
+    10
+    ]
+float  `" ++ [233]%N ++ runes_of_ascii "`  ,BodyLength  Z9_,
+float32 o
+    `a\`	, uint64 roots `two words`	// " ++ [27880; 37322]%N ++ runes_of_ascii "
+  ,
 }")).
+Eval vm_compute in ("<<<M1393>>>" ++ check (runes_of_ascii "packet
+
+    order_item 
+{
+	u8	a  ,	}
+root 
+packet
+    new_order
+
+    {
+
+    order_item
+
+    ,
+
+    u8 x ,
+    }
+
+")).
+Eval vm_compute in ("<<<M612>>>" ++ check (runes_of_ascii "MetaData
+    // trailing space 
+    matchKey
+{ u64 chars // a // b
+, ,char[] lengthOf `// not a comment`
+    , //	t
+}")).
+Eval vm_compute in ("<<<M589>>>" ++ check (runes_of_ascii "matchKey
+    // trailing space 
+    MetaData
+{ u64 chars // a // b
+,char[] lengthOf `// not a comment`
+    , //	t
+}")).
+Eval vm_compute in ("<<<M658>>>" ++ check (runes_of_ascii "MetaData
+    // trailing space 
+    matchKey
+{ u64 chars // a // b
+,char[] caf" ++ [233]%N ++ runes_of_ascii "_1 `// not a comment`
+    , //	t
+}")).
+Eval vm_compute in ("<<<M1731>>>" ++ check (runes_of_ascii "
+packet
+    A {
+    match
+k 
+as 
+n
+{	[""a"" , 
+""bb""
+
+    ,
+	""c c"",  ""d""	,  ""e""
+
+, ""f"" , ""g"" ] : 
+B 2 :C 
+}, }")).
 Eval vm_compute in ("<<<M217>>>" ++ check (runes_of_ascii "packet i8i8  { lengthOf lengthOf
     `u8 x,`
 , }options{u =
 '\x00'; } MetaData i64_ {
 }MetaData Header {}")).
-Eval vm_compute in ("<<<M3451>>>" ++ check (runes_of_ascii "options {
-    LittleEndian = true;
+Eval vm_compute in ("<<<M1257>>>" ++ check (runes_of_ascii "packet calculatedFrom { // c
+@tag( 4294967296 ) u msg_type , char[ 3 ] crc @lengthOf( len ) `u8 x,` , }")).
+Eval vm_compute in ("<<<M1364>>>" ++ check (runes_of_ascii "
+options{
+
+    FixedStringPadFromLeft
+
+=
+
+    true
+
+; } root
+	packet 
+P{
+    char[4
+]z 
+,
+
+    } ")).
+Eval vm_compute in ("<<<M1665>>>" ++ check (runes_of_ascii "MetaData metadata {
+    leftPad i64_,
+    // " ++ [128512]%N ++ runes_of_ascii " emoji
+    u8 stringy `
+    `,
+    char[] trueish,
+}")).
+Eval vm_compute in ("<<<M1135>>>" ++ check (runes_of_ascii "packet Logon {
+// c
+@tag( 42 ) @rightPad ( ' ' ) @leftPad ( ) repeat trueish { string T , } , }")).
+Eval vm_compute in ("<<<M1167>>>" ++ check (runes_of_ascii "packet Logon { @tag( 42 ) @rightPad ( ' ' ) @leftPad ( ) repeat trueish { string T ,
+// c
+} , }")).
+Eval vm_compute in ("<<<M869>>>" ++ check (runes_of_ascii "packet A {
+  match k as n {
+    [1, ""bb"", 007, ""d"", 5, ""f"", 7, ""h"", 9] : B
+    2 : C
+  },
+}")).
+Eval vm_compute in ("<<<M1987>>>" ++ check (runes_of_ascii "
+packet A
+
+{match
+    k
+
+    as 
+n
+{
+[
+1
+,  22	,  ""c c""  ]
+    : B , 2 
+:
+
+C
 }
-root packet P {
+
+, }
+")).
+Eval vm_compute in ("<<<M836>>>" ++ check (runes_of_ascii "packet A {
+  match k as n {
+    [""a"", ""bb"", 007, ""d"", ""e"", 66] : B
+    2 : C
+  },
+}")).
+Eval vm_compute in ("<<<M1218>>>" ++ check (runes_of_ascii "packet o { @tag( 42 ) // c
+repeat x { char[ 0123456789 ] i64_ , } , } options { }")).
+Eval vm_compute in ("<<<M1814>>>" ++ check (runes_of_ascii "MetaData matchKey {
+    u64 chars,
+    char[] lengthOf `// not a comment`,//	t" ++ [8232]%N ++ runes_of_ascii "
+}")).
+Eval vm_compute in ("<<<M1704>>>" ++ check (runes_of_ascii "  packet A{
+	match 
+k as
+
+n {[
+	""a""
+,  ""bb""	,
+
+    007]
+	:	B
+	2:
+C  }  ,
+}
+")).
+Eval vm_compute in ("<<<M1715>>>" ++ check (runes_of_ascii "packet A {
+    match k as n {
+        [1, 22] : B,
+        2 : C,
+    },
+}")).
+Eval vm_compute in ("<<<M1709>>>" ++ check (runes_of_ascii "// c
+MetaData _x {
+    zchar[4294967296] lengthOf `// not a comment`,
+}")).
+Eval vm_compute in ("<<<M1372>>>" ++ check (runes_of_ascii "root packet P {
     u16 a,
-    u32 Sum @calculatedFrom(""CRC32""),
+    u32 Sum @calculatedFrom(""CR\
+C32""),
 }
 ")).
-Eval vm_compute in ("<<<M3358>>>" ++ check (runes_of_ascii "packet calculatedFrom { @tag( 4294967296 ) u msg_type , char[
-// c
-3 ] crc @lengthOf( len ) `u8 x,` , }")).
-Eval vm_compute in ("<<<M62>>>" ++ check (runes_of_ascii "
-options{metadata
-    =
-// @lengthOf(
-// @lengthOf(
-""a	b"" u = 0
-; // trailing space 
-i8i8 = 0
-;	} 	 ")).
-Eval vm_compute in ("<<<M2970>>>" ++ check (runes_of_ascii "packet A {
+Eval vm_compute in ("<<<M780>>>" ++ check (runes_of_ascii "packet A {
   match k as n {
-    [""a"", 22, ""c c"", 4, ""e"", 66, ""g"", 8, ""i"", 10] : B
+    [""a"", ""bb""] : B
     2 : C
   },
 }")).
-Eval vm_compute in ("<<<M4431>>>" ++ check (runes_of_ascii "
-packet
-
-    A
-{
-
-match	k
-    as
-
-n 
-{
-
-[ ""a"" 
-,
-    ""bb"" ]	: B ,2  :
-    C 
-}
-
-    ,
-    }")).
-Eval vm_compute in ("<<<M3234>>>" ++ check (runes_of_ascii "packet Logon { @tag( 42 ) @rightPad ( ' ' ) // c
-@leftPad ( ) repeat trueish { string T , } , }")).
-Eval vm_compute in ("<<<M2007>>>" ++ check (runes_of_ascii "root
-packet crc
-    { f32a @calculatedFrom( """ ++ [233]%N ++ runes_of_ascii "t" ++ [233]%N ++ runes_of_ascii """ )
-    `say ""hi""`, lengthOf lengthOf `` ,  }")).
-Eval vm_compute in ("<<<M271>>>" ++ check (runes_of_ascii "packet BodyLength { @tag(	007
-)
-char[ 65535
-]
-    string_
-`u8 x,`,
-    // @lengthOf(
-    }")).
-Eval vm_compute in ("<<<M2294>>>" ++ check (runes_of_ascii "MetaData Packet { }packet	asx  { @lengthOf( asx) falsey`crlf
-line`
-,
-    }
-    packet x")).
-Eval vm_compute in ("<<<M2289>>>" ++ check (runes_of_ascii "MetaData Packet { }packet	asx  { @lengthOf( asx) falsey`crlf
-line`
-,
-    }
-    packet")).
-Eval vm_compute in ("<<<M2931>>>" ++ check (runes_of_ascii "packet A {
+Eval vm_compute in ("<<<M774>>>" ++ check (runes_of_ascii "packet A {
   match k as n {
-    [""a"", 22, ""c c"", 4, ""e"", 66, ""g""] : B
+    [""a""] : B,
     2 : C
   },
 }")).
-Eval vm_compute in ("<<<M972>>>" ++ check (runes_of_ascii "options	{ string_ =  '\x00'
-    rootA // trailing space 
-= u8; Foo =""a\\""//
-;
-    }
-")).
-Eval vm_compute in ("<<<M4453>>>" ++ check (runes_of_ascii "
-// top
-	options	// c0
-{  // c1
-  u8x  // c2
-    =  // c3
-3  // c4
-  } // c5
- 
-")).
-Eval vm_compute in ("<<<M3301>>>" ++ check (runes_of_ascii "packet o { @tag(
-// c
-42 ) repeat x { char[ 0123456789 ] i64_ , } , } options { }")).
-Eval vm_compute in ("<<<M3826>>>" ++ check (runes_of_ascii "
-MetaData matchKey
-{
-}MetaData  rootA
-
-    { 	 //	t
-  falsey
-    stringy
-,}
-")).
-Eval vm_compute in ("<<<M3057>>>" ++ check (runes_of_ascii "packet A {
-    u32 crc @calculatedFrom(""\
-""),
-    @calculatedFrom(""\
-"") u8 y,
+Eval vm_compute in ("<<<M1949>>>" ++ check (runes_of_ascii "MetaData trueish {
+    char[] chars,
+    char[] int,
 }")).
-Eval vm_compute in ("<<<M40>>>" ++ check (runes_of_ascii "  root
-    packet falsey
-{}
-/// triple
-// " ++ [27880; 37322]%N ++ runes_of_ascii "
-options {}
-// trailing space 
-")).
-Eval vm_compute in ("<<<M1984>>>" ++ check (runes_of_ascii "root
-packet crc
-    { f32a char[ """ ++ [233]%N ++ runes_of_ascii "t" ++ [233]%N ++ runes_of_ascii """ )
-    `say ""hi""`, lengthOf `` ,  }")).
-Eval vm_compute in ("<<<M2898>>>" ++ check (runes_of_ascii "packet A {
-  match k as n {
-    [1, 22, 007, 4, 5] : B,
-    2 : C
-  },
+Eval vm_compute in ("<<<M1764>>>" ++ check (runes_of_ascii "packet o {
+    char[0123456789] asx `doc`,
 }")).
-Eval vm_compute in ("<<<M2962>>>" ++ check (runes_of_ascii "packet A { Inner { match k as n { [1,22,007,4,5,66,7,8,9] : B, }, }, }")).
-Eval vm_compute in ("<<<M2879>>>" ++ check (runes_of_ascii "packet A {
-  match k as n {
-    [""a"", 22, ""c c""] : B
-    2 : C
-  },
+Eval vm_compute in ("<<<M1110>>>" ++ check (runes_of_ascii "MetaData zchar { zchar[ // c
+3 ] Pad , }")).
+Eval vm_compute in ("<<<M934>>>" ++ check (runes_of_ascii "packet A {
+    u8 x `a
+    b
+  c`,
 }")).
-Eval vm_compute in ("<<<M3807>>>" ++ check (runes_of_ascii "options { Z9_  =
-	""" ++ [233]%N ++ runes_of_ascii "t" ++ [233]%N ++ runes_of_ascii """
-;
-
-rootA
-	=
-	string
-;}	// trailing space 
-")).
-Eval vm_compute in ("<<<M2660>>>" ++ check (runes_of_ascii "options { a = char[3]; b = zchar[0] c = char[] d = string e = u8 }")).
-Eval vm_compute in ("<<<M2161>>>" ++ check (runes_of_ascii "root
-    // `tick` ""quote"" 'q'
-    packet  { trueish Packet , }
-")).
-Eval vm_compute in ("<<<M3810>>>" ++ check (runes_of_ascii "packet rootA {
-    int @lengthOf(Packet) `// not a comment`,
-}")).
-Eval vm_compute in ("<<<M228>>>" ++ check (runes_of_ascii "packet Z9_
-    { body MetaDataX , } MetaData asx  {
-} //	t")).
-Eval vm_compute in ("<<<M4392>>>" ++ check (runes_of_ascii "MetaData charz {
-    zchar[42] packetx `crlf
-    line`,
-}")).
-Eval vm_compute in ("<<<M1947>>>" ++ check (runes_of_ascii "
-packet	As { @calculatedFrom(//x
-""{,}""	" ++ [233]%N ++ runes_of_ascii ")lengthOf , } 	 ")).
-Eval vm_compute in ("<<<M1935>>>" ++ check (runes_of_ascii "
-packet	As { @calculatedFrom(//x
-""{,}""	)lengthOf ,  	 ")).
-Eval vm_compute in ("<<<M1081>>>" ++ check (runes_of_ascii "options {i64_ =""x y"" _x =  int32 i64_ = '0' } // " ++ [27880; 37322]%N)).
-Eval vm_compute in ("<<<M406>>>" ++ check (runes_of_ascii "options
-    {} packet
-_x
-{
-}packet
-matchKey { }
-")).
-Eval vm_compute in ("<<<M2422>>>" ++ check (runes_of_ascii "MetaData A
-i64
-{
-chars	, } // `tick` ""quote"" 'q'")).
-Eval vm_compute in ("<<<M3897>>>" ++ check (runes_of_ascii "MetaData charz {
-    char[7] body `tab	here`,
-}")).
-Eval vm_compute in ("<<<M1754>>>" ++ check (runes_of_ascii "options { }{ options  } // `tick` ""quote"" 'q'")).
-Eval vm_compute in ("<<<M732>>>" ++ check (runes_of_ascii "options {
-calculatedFrom
-= f64
-} // a // b")).
-Eval vm_compute in ("<<<M3050>>>" ++ check (runes_of_ascii "options {
-    a = ""x\
-y"";
-    b = ""x\
-y""
-}")).
-Eval vm_compute in ("<<<M1448>>>" ++ check (runes_of_ascii "root packet Foo // " ++ [128512]%N ++ runes_of_ascii " emoji
-{ } options {")).
-Eval vm_compute in ("<<<M3201>>>" ++ check (runes_of_ascii "MetaData zchar { zchar[ 3 ]
-// c
-Pad , }")).
-Eval vm_compute in ("<<<M980>>>" ++ check (runes_of_ascii "options
-// a // b
-// @lengthOf(
-{ } 	 ")).
-Eval vm_compute in ("<<<M798>>>" ++ check (runes_of_ascii "options{ asx = u64 ; string_ = 10 }
-")).
-Eval vm_compute in ("<<<M3049>>>" ++ check (runes_of_ascii "root packet A {
-    u8 x `tab
-	x`,
-}")).
-Eval vm_compute in ("<<<M2805>>>" ++ check (runes_of_ascii "`// not a comment` int64 int8 true")).
-Eval vm_compute in ("<<<M2836>>>" ++ check (runes_of_ascii "root float64 } packet true i32 ,")).
-Eval vm_compute in ("<<<M1336>>>" ++ check (runes_of_ascii "MetaData Packet{  }
-// a // b
-")).
-Eval vm_compute in ("<<<M3882>>>" ++ check (runes_of_ascii "
-packet	A 
-{x y `d`
-,
-    }
-")).
-Eval vm_compute in ("<<<M2777>>>" ++ check (runes_of_ascii "= u128 u8 u16 char u16 false")).
-Eval vm_compute in ("<<<M4151>>>" ++ check (runes_of_ascii "
-
-  MetaData
-leftPad
-{ } ")).
-Eval vm_compute in ("<<<M614>>>" ++ check (runes_of_ascii "MetaData repeatCount {
-}")).
-Eval vm_compute in ("<<<M722>>>" ++ check (runes_of_ascii "packet
-MetaDataX
-    { }")).
-Eval vm_compute in ("<<<M3382>>>" ++ check (runes_of_ascii "packet // c
-lengthOf { }")).
-Eval vm_compute in ("<<<M4347>>>" ++ check (runes_of_ascii "packet rootA {
-    //
-}")).
-Eval vm_compute in ("<<<M1874>>>" ++ check (runes_of_ascii "packet
-    Pad // a /")).
-Eval vm_compute in ("<<<M2663>>>" ++ check (runes_of_ascii "options { a = `d`; }")).
-Eval vm_compute in ("<<<M3146>>>" ++ check (runes_of_ascii "packet A {
+Eval vm_compute in ("<<<M1373>>>" ++ check (runes_of_ascii "root packet P {
+    string s,
 }
-// c x")).
-Eval vm_compute in ("<<<M3066>>>" ++ check (runes_of_ascii "packet A {
-}
-// c" ++ [12288]%N)).
-Eval vm_compute in ("<<<M3159>>>" ++ check (runes_of_ascii "MetaData M {
-}// c")).
-Eval vm_compute in ("<<<M3104>>>" ++ check (runes_of_ascii "packet A {
-}// c" ++ [8239]%N)).
-Eval vm_compute in ("<<<M1217>>>" ++ check (runes_of_ascii "MetaData o { }
 ")).
-Eval vm_compute in ("<<<M2668>>>" ++ check (runes_of_ascii "options A { }")).
-Eval vm_compute in ("<<<M1052>>>" ++ check (runes_of_ascii "options {}")).
-Eval vm_compute in ("<<<M2806>>>" ++ check ([65533]%N ++ runes_of_ascii ">e" ++ [65533]%N ++ runes_of_ascii "ka(" ++ [65533]%N)).
-Eval vm_compute in ("<<<M2466>>>" ++ check (runes_of_ascii "Packet")).
-Eval vm_compute in ("<<<M2519>>>" ++ check (runes_of_ascii "`a
-b`")).
-Eval vm_compute in ("<<<M2443>>>" ++ check (runes_of_ascii "i8i8")).
-Eval vm_compute in ("<<<M2497>>>" ++ check (runes_of_ascii "///")).
-Eval vm_compute in ("<<<M2495>>>" ++ check (runes_of_ascii "//")).
-Eval vm_compute in ("<<<M2680>>>" ++ check (runes_of_ascii "")).
+Eval vm_compute in ("<<<M1017>>>" ++ check (runes_of_ascii "packet A {
+ u8 x `d" ++ [8233]%N ++ runes_of_ascii "`, // c" ++ [8233]%N ++ runes_of_ascii "
+}")).
+Eval vm_compute in ("<<<M928>>>" ++ check (runes_of_ascii "packet A {
+    u8 x `
+`,
+}")).
+Eval vm_compute in ("<<<M1298>>>" ++ check (runes_of_ascii "packet lengthOf // c
+{ }")).
+Eval vm_compute in ("<<<M405>>>" ++ check (runes_of_ascii "options
+{
+matchKey")).
+Eval vm_compute in ("<<<M1025>>>" ++ check (runes_of_ascii "packet A {
+}
+// c" ++ [8287]%N)).
+Eval vm_compute in ("<<<M1023>>>" ++ check (runes_of_ascii "packet A {
+}// c" ++ [8287]%N)).
+Eval vm_compute in ("<<<M731>>>" ++ check (runes_of_ascii "// a
+// b
+")).
+Eval vm_compute in ("<<<M50>>>" ++ check (runes_of_ascii "//
+
+")).
